@@ -56,7 +56,8 @@ CONSTANTS
   BufCap,       \* cap of the modelled backlog of a subscriber channel
   RespCap,      \* cap of the modelled backlog of ResponsesCh (senders blocked in the send)
   WithIndexer,  \* model the indexer service loops
-  MaxHeaders    \* block headers delivered to the indexer service
+  MaxHeaders,   \* block headers delivered to the indexer service
+  TraceMode     \* TRUE in trace validation: admit the hook-order commutations of a rendez-vous (sender's hook first)
 
 AllDefects == {"D11", "D12", "D18", "D19", "D20"}
 ASSUME Known \subseteq AllDefects
@@ -85,12 +86,14 @@ variables
   \* ---- memEventBus (pubsub.go)
   busTopics = [t \in Topics |-> 0];                 \* m.topics[name] = src channel (0: absent)
   busSubs   = [t \in Topics |-> {}];                \* m.subscribers[name]
+  topW = FALSE;                                     \* m.topicsMux held across two labels (fixed publishTopic only)
+  devUsed = {};                                     \* ghost: deviations whose defective behaviour was exercised
   subCh     = [s \in Subs |-> [closed |-> FALSE, buf |-> 0]];   \* the channel bus.Subscribe made
   \* ---- EventSystem (filter_system.go)
   idxR = 0; idxW = FALSE;                           \* es.indexMux
   index = [t \in Topics |-> {}];                    \* es.index[typ] (typ <-> event is 1:1)
   topicChans = [t \in Topics |-> 0];                \* es.topicChans[event]
-  chans = [c \in Chans |-> [closed |-> FALSE, offer |-> 0, topic |-> 0]];
+  chans = [c \in Chans |-> [closed |-> FALSE, offer |-> 0, inflight |-> 0, topic |-> 0]];
   nextChan = 1;
   installQ = {}; uninstallQ = {};                   \* senders blocked in es.install <- / es.uninstall <-
   installed = [s \in Subs |-> FALSE];               \* close(f.installed)
@@ -137,6 +140,7 @@ el_wait:
     either {
       \* case f := <-es.install: es.indexMux.Lock(); es.index[f.typ][f.id] = f        (hook i.locked)
       await installQ # {} /\ idxR = 0 /\ ~idxW;
+      if (pc[CE] \in {"ce_send", "ce_sent"}) { devUsed := devUsed \cup {"D11"} };
       with (s \in installQ) { f := s; installQ := installQ \ {s} };
       ft := subTopic[f];
       idxW := TRUE;
@@ -146,13 +150,14 @@ el_wait:
         goto el_i_unlock0;
       };
 el_i_addchk:                                        \* AddTopic: topicsMux.RLock; _, ok := m.topics[name]
+      await ~topW;
       addOk := busTopics[ft] = 0;
+      if (~addOk) { goto el_i_unlock };
 el_i_add:                                           \* AddTopic: topicsMux.Lock; m.topics[name] = src; go publishTopic
-      if (addOk) {
-        ech := nextChan; nextChan := nextChan + 1;
-        busTopics[ft] := ech;
-        chans[ech].topic := ft;
-      };
+      await ~topW;
+      ech := nextChan; nextChan := nextChan + 1;
+      busTopics[ft] := ech;
+      chans[ech].topic := ft;
 el_i_unlock:                                        \* es.topicChans[f.event] = ch; es.indexMux.Unlock()
       if (addOk) { topicChans[ft] := ech };
       idxW := FALSE;
@@ -165,6 +170,7 @@ el_i_done:                                          \* close(f.installed)
     } or {
       \* case f := <-es.uninstall: es.indexMux.Lock(); delete(es.index[f.typ], f.id); channelInUse?   (hook u.locked)
       await uninstallQ # {} /\ idxR = 0 /\ ~idxW;
+      if (pc[CE] \in {"ce_send", "ce_sent"}) { devUsed := devUsed \cup {"D11"} };
       with (s \in uninstallQ) { f := s; uninstallQ := uninstallQ \ {s} };
       ft := subTopic[f];
       idxW := TRUE;
@@ -173,6 +179,7 @@ el_i_done:                                          \* close(f.installed)
       ech := topicChans[ft];
       if (inUse \/ ech = 0) { goto el_u_unlock };
 el_u_remove:                                        \* es.eventBus.RemoveTopic(f.event)
+      await ~topW;
       busTopics[ft] := 0;
 el_u_close:                                         \* close(ch); delete(es.topicChans, f.event)
       if (chans[ech].closed) { Panic("close of closed channel") }
@@ -202,7 +209,9 @@ ce_send:                                            \* select { case ch <- ev: ;
       if (chans[cch].closed) { Panic("send on closed channel") }
       else { chans[cch].offer := 1 };
 ce_sent:                                            \* the select returned / panicked
-      either { await chans[cch].offer = 2; chans[cch].offer := 0 }             \* delivered
+      either { await chans[cch].offer = 2; chans[cch].offer := 0 }             \* delivered (receiver observed first)
+      or     { await TraceMode /\ chans[cch].offer = 1;                         \* delivered (sender's hook first)
+               chans[cch] := [chans[cch] EXCEPT !.offer = 0, !.inflight = @ + 1] }
       or     { await chans[cch].offer = 1 /\ ~chans[cch].closed; chans[cch].offer := 0 }  \* timer: dropped
       or     { await chans[cch].offer = 1 /\ chans[cch].closed; Panic("send on closed channel") };
       if ("D11" \notin Known) { idxR := idxR - 1 };
@@ -213,36 +222,35 @@ ce_sent:                                            \* the select returned / pan
 
 \* ------------------------------------------------------------------ publishTopic (one goroutine per AddTopic)
 process (publishTopic \in PTs)
-variables pch = self - 10; pt = 0; ptOk = FALSE;
+variables pch = self - 10; ptOk = FALSE;
 {
-pt_recv:                                            \* msg, ok := <-src
-  await chans[pch].topic # 0;
-  pt := chans[pch].topic;
-pt_loop:
+pt_loop:                                            \* msg, ok := <-src         (the goroutine exists once AddTopic made it)
   while (TRUE) {
-    either { await chans[pch].offer = 1; chans[pch].offer := 2; ptOk := TRUE }
-    or     { await chans[pch].closed /\ chans[pch].offer # 1; ptOk := FALSE };
+    either { await chans[pch].topic # 0 /\ chans[pch].inflight = 0 /\ chans[pch].offer = 1; chans[pch].offer := 2; ptOk := TRUE }
+    or     { await chans[pch].topic # 0 /\ chans[pch].inflight > 0; chans[pch].inflight := chans[pch].inflight - 1; ptOk := TRUE }
+    or     { await chans[pch].topic # 0 /\ chans[pch].closed /\ chans[pch].inflight = 0; ptOk := FALSE };  \* (a sender still in its select panics)
     if (ptOk) {
 pt_pub:                                             \* publishAllSubscribers: RLock; select { case sub <- msg: default: }
-      if (\E x \in busSubs[pt] : subCh[x].closed) { Panic("send on closed channel") }
-      else { subCh := [x \in Subs |-> IF x \in busSubs[pt] THEN [subCh[x] EXCEPT !.buf = Min(@ + 1, BufCap)] ELSE subCh[x]] };
+      if (\E x \in busSubs[chans[pch].topic] : subCh[x].closed) { Panic("send on closed channel") }
+      else { subCh := [x \in Subs |-> IF x \in busSubs[chans[pch].topic] THEN [subCh[x] EXCEPT !.buf = Min(@ + 1, BufCap)] ELSE subCh[x]] };
       ptOk := FALSE;
     } else {
-pt_closeall:                                        \* closeAllSubscribers(name)  [fixed design: together with the
-                                                    \* delete, under topicsMux, and only if the topic is not re-registered]
-      with (stale = ("D12" \notin Known) /\ busTopics[pt] # 0 /\ busTopics[pt] # pch) {
-        if (~stale) {
-          if (\E x \in busSubs[pt] : subCh[x].closed) { Panic("close of closed channel") }
-          else { subCh := [x \in Subs |-> IF x \in busSubs[pt] THEN [subCh[x] EXCEPT !.closed = TRUE] ELSE subCh[x]] };
-          busSubs[pt] := {};
-        };
-        if ("D12" \notin Known) {
-          if (~stale) { busTopics[pt] := 0 };
-          goto pt_done;
-        };
+      if ("D12" \notin Known) {
+pt_chk:                                             \* property-respecting design: topicsMux.Lock; is the topic still ours?
+        await ~topW;
+        if (busTopics[chans[pch].topic] # 0 /\ busTopics[chans[pch].topic] # pch) { goto pt_done }
+        else { topW := TRUE };
       };
-pt_del:                                             \* topicsMux.Lock; delete(m.topics, name)
-      busTopics[pt] := 0;
+pt_closeall:                                        \* closeAllSubscribers(name)
+      if (busTopics[chans[pch].topic] # 0 /\ busTopics[chans[pch].topic] # pch /\ busSubs[chans[pch].topic] # {}) { devUsed := devUsed \cup {"D12"} };
+      if (\E x \in busSubs[chans[pch].topic] : subCh[x].closed) { Panic("close of closed channel") }
+      else { subCh := [x \in Subs |-> IF x \in busSubs[chans[pch].topic] THEN [subCh[x] EXCEPT !.closed = TRUE] ELSE subCh[x]] };
+      busSubs[chans[pch].topic] := {};
+pt_del:                                             \* [topicsMux.Lock;] delete(m.topics, name); Unlock
+      await topW \/ "D12" \in Known;
+      if (busTopics[chans[pch].topic] # 0 /\ busTopics[chans[pch].topic] # pch) { devUsed := devUsed \cup {"D12"} };
+      busTopics[chans[pch].topic] := 0;
+      topW := FALSE;
       goto pt_done;
     }
   };
@@ -260,6 +268,7 @@ c_flock:                                            \* NewBlockFilter: api.filte
       await fmu = 0; fmu := self;
     };
 c_topics:                                           \* es.subscribe: existingSubs := es.eventBus.Topics()
+    await ~topW;
     with (tt \in Topics) { ct := tt };
     subTopic[cs] := ct;
     if ("D18" \notin Known) {
@@ -267,34 +276,32 @@ c_topics:                                           \* es.subscribe: existingSub
       installQ := installQ \cup {cs}; goto c_bsub1;
     } else {
       seen := busTopics[ct] # 0;
-      if (seen) { goto c_bsub1 };
+      if (seen) { devUsed := devUsed \cup {"D18"}; goto c_bsub1 };
     };
 c_inst:                                             \* [cometWSClient.Subscribe]; es.install <- sub
     installQ := installQ \cup {cs};
 c_bsub1:                                            \* <-sub.installed; eventBus.Subscribe: topicsMux.RLock; _, ok := m.topics[name]
-    await seen \/ installed[cs];
+    await (seen \/ installed[cs]) /\ ~topW;
     ok := busTopics[ct] # 0;
+    if (~ok) { subState[cs] := "failed"; if (Api) { goto c_funlock } else { goto c_next } };
 c_bsub2:                                            \* subscribersMux.Lock; m.subscribers[name][id] = ch
-    if (ok) { busSubs[ct] := busSubs[ct] \cup {cs}; if (~Api) { subState[cs] := "live" } }
-    else { subState[cs] := "failed" };
+    busSubs[ct] := busSubs[ct] \cup {cs};
+    if (~Api) { subState[cs] := "live" };
     if (Api) {
-      if (ok) {
 c_fadd:                                             \* api.filters[id] = &filter{...}; go consumer
-        filters := filters \cup {cs}; timer[cs] := "running"; coSpawned := coSpawned \cup {cs};
-        subState[cs] := "live";
-      };
+      filters := filters \cup {cs}; timer[cs] := "running"; coSpawned := coSpawned \cup {cs};
+      subState[cs] := "live";
 c_funlock:                                          \* deferred api.filtersMu.Unlock()
       fmu := 0;
       if (~ok) { goto c_next };
 c_use:
       either { await polls < MaxPolls; polls := polls + 1;
-g_lock:                                             \* GetFilterChanges: Lock; f, found := api.filters[id]; f.deadline.Stop()
+g_lock:                                             \* GetFilterChanges: Lock; f, found := api.filters[id]; if !f.deadline.Stop() { <-f.deadline.C }; Reset
                await fmu = 0; fmu := self;
                found := cs \in filters;
-               if (~found) { goto g_unlock };
-g_timer:                                            \* if !Stop() { <-f.deadline.C }; Reset
-               await timer[cs] \in {"running", "fired"};
-               timer[cs] := "running";
+               if (found /\ timer[cs] = "drained") {
+g_drain:         await FALSE;                       \* <-f.deadline.C on a timer somebody else drained: blocks for ever, holding filtersMu
+               } else if (found) { timer[cs] := "running" };
 g_unlock:
                fmu := 0;
                goto c_use }
@@ -304,15 +311,13 @@ u_lock:                                             \* UninstallFilter: Lock; de
                found := cs \in filters;
                filters := filters \ {cs};
                if (subState[cs] = "live") { subState[cs] := "unsub" };
-u_unsub:                                            \* f.cs.Unsubscribe(api.events)
-               if (found) { unReq[cs] := unReq[cs] + 1 };
+               if (found) { unReq[cs] := unReq[cs] + 1 };    \* f.s.Unsubscribe(api.events): go func() { es.uninstall <- s }
                goto c_next }
       or     { goto c_next };                       \* abandon the filter (left to timeoutLoop)
     } else {
-      if (~ok) { goto c_next };
 c_recv:                                             \* the rpc-subscription goroutine of NewHeads / Logs
       either { await subCh[cs].buf > 0; subCh[cs].buf := subCh[cs].buf - 1; goto c_recv }
-      or     { await subCh[cs].closed /\ subCh[cs].buf = 0 }
+      or     { await subCh[cs].closed; subCh[cs].buf := 0 }
       or     { skip };                              \* rpcSub.Err() / notifier.Closed()
 c_unsub:                                            \* sub.Unsubscribe(api.events)
       subState[cs] := "unsub";
@@ -341,26 +346,27 @@ un_send:                                            \* select { case es.uninstal
 process (consumer \in COs)
 variables me = self - 40;
 {
-co_start:
-  await me \in coSpawned;
 co_sel:
   while (TRUE) {
     either {                                        \* case ev, ok := <-headersCh (ok)
-      await subCh[me].buf > 0; subCh[me].buf := subCh[me].buf - 1;
+      await me \in coSpawned /\ subCh[me].buf > 0; subCh[me].buf := subCh[me].buf - 1;
+      either { skip }                               \* event of another data type / undecodable tx: continue
+      or {
 co_ev:                                              \* filtersMu.Lock; append; Unlock
-      await fmu = 0;
+        await fmu = 0;
+      }
     } or {                                          \* !ok
-      await subCh[me].closed /\ subCh[me].buf = 0;
+      await me \in coSpawned /\ subCh[me].closed; subCh[me].buf := 0;
 co_closed:                                          \* filtersMu.Lock; delete(api.filters, id); Unlock; return
       await fmu = 0;
       filters := filters \ {me};
       goto co_exit;
     } or {                                          \* case <-errCh
-      await errClosed[me];
+      await me \in coSpawned /\ errClosed[me];
 co_err:                                             \* filtersMu.Lock; delete(api.filters, id); Unlock; [return]
       await fmu = 0;
       filters := filters \ {me};
-      if (~("D19" \in Known /\ subTopic[me] \in SpinTopics)) { goto co_exit };
+      if (~("D19" \in Known /\ subTopic[me] \in SpinTopics)) { goto co_exit } else { devUsed := devUsed \cup {"D19"} };
     }
   };
 co_exit:                                            \* deferred cancelSubs()
@@ -379,8 +385,7 @@ tl_idle:
     } or {                                          \* <-ticker.C; filtersMu.Lock
       await Api /\ ticks < MaxTicks /\ fmu = 0;
       ticks := ticks + 1;
-      fmu := TL;
-tl_scan:                                            \* for id, f := range filters: select {case <-f.deadline.C: Unsubscribe; delete}
+      fmu := TL;                                    \* for id, f := range filters: select {case <-f.deadline.C: Unsubscribe; delete}
       with (ex = {x \in filters : timer[x] = "fired"}) {
         timer := [x \in Subs |-> IF x \in ex THEN "drained" ELSE timer[x]];
         unReq := [x \in Subs |-> IF x \in ex THEN unReq[x] + 1 ELSE unReq[x]];
@@ -471,8 +476,8 @@ iq_loop:
 
 } *)
 \* BEGIN TRANSLATION
-VARIABLES pc, crashed, busTopics, busSubs, subCh, idxR, idxW, index, 
-          topicChans, chans, nextChan, installQ, uninstallQ, installed, 
+VARIABLES pc, crashed, busTopics, busSubs, topW, devUsed, subCh, idxR, idxW, 
+          index, topicChans, chans, nextChan, installQ, uninstallQ, installed, 
           errClosed, subTopic, subState, unReq, resp, emitted, fmu, filters, 
           timer, coSpawned, ticks, fires, latestBlock, lastIndexed, hdr, 
           newBlockSig, quitBuf, quit
@@ -494,15 +499,16 @@ LockInv == /\ idxR >= 0 /\ (idxW => idxR = 0)
 
 IndexerInv == lastIndexed <= latestBlock
 
-VARIABLES f, ft, ech, addOk, inUse, cch, pch, pt, ptOk, round, cs, ct, seen, 
-          ok, polls, found, me, h, lb, sent
+VARIABLES f, ft, ech, addOk, inUse, cch, pch, ptOk, round, cs, ct, seen, ok, 
+          polls, found, me, h, lb, sent
 
-vars == << pc, crashed, busTopics, busSubs, subCh, idxR, idxW, index, 
-           topicChans, chans, nextChan, installQ, uninstallQ, installed, 
-           errClosed, subTopic, subState, unReq, resp, emitted, fmu, filters, 
-           timer, coSpawned, ticks, fires, latestBlock, lastIndexed, hdr, 
-           newBlockSig, quitBuf, quit, f, ft, ech, addOk, inUse, cch, pch, pt, 
-           ptOk, round, cs, ct, seen, ok, polls, found, me, h, lb, sent >>
+vars == << pc, crashed, busTopics, busSubs, topW, devUsed, subCh, idxR, idxW, 
+           index, topicChans, chans, nextChan, installQ, uninstallQ, 
+           installed, errClosed, subTopic, subState, unReq, resp, emitted, 
+           fmu, filters, timer, coSpawned, ticks, fires, latestBlock, 
+           lastIndexed, hdr, newBlockSig, quitBuf, quit, f, ft, ech, addOk, 
+           inUse, cch, pch, ptOk, round, cs, ct, seen, ok, polls, found, me, 
+           h, lb, sent >>
 
 ProcSet == {EL} \cup {CE} \cup (PTs) \cup (CLs) \cup (UNs) \cup (COs) \cup {TL} \cup {SRC} \cup {IH} \cup {IM} \cup {IQ}
 
@@ -510,12 +516,14 @@ Init == (* Global variables *)
         /\ crashed = "no"
         /\ busTopics = [t \in Topics |-> 0]
         /\ busSubs = [t \in Topics |-> {}]
+        /\ topW = FALSE
+        /\ devUsed = {}
         /\ subCh = [s \in Subs |-> [closed |-> FALSE, buf |-> 0]]
         /\ idxR = 0
         /\ idxW = FALSE
         /\ index = [t \in Topics |-> {}]
         /\ topicChans = [t \in Topics |-> 0]
-        /\ chans = [c \in Chans |-> [closed |-> FALSE, offer |-> 0, topic |-> 0]]
+        /\ chans = [c \in Chans |-> [closed |-> FALSE, offer |-> 0, inflight |-> 0, topic |-> 0]]
         /\ nextChan = 1
         /\ installQ = {}
         /\ uninstallQ = {}
@@ -548,7 +556,6 @@ Init == (* Global variables *)
         /\ cch = 0
         (* Process publishTopic *)
         /\ pch = [self \in PTs |-> self - 10]
-        /\ pt = [self \in PTs |-> 0]
         /\ ptOk = [self \in PTs |-> FALSE]
         (* Process client *)
         /\ round = [self \in CLs |-> 1]
@@ -568,10 +575,10 @@ Init == (* Global variables *)
         /\ sent = 0
         /\ pc = [self \in ProcSet |-> CASE self = EL -> "el_wait"
                                         [] self = CE -> "ce_lookup"
-                                        [] self \in PTs -> "pt_recv"
+                                        [] self \in PTs -> "pt_loop"
                                         [] self \in CLs -> "c_begin"
                                         [] self \in UNs -> "un_send"
-                                        [] self \in COs -> "co_start"
+                                        [] self \in COs -> "co_sel"
                                         [] self = TL -> "tl_idle"
                                         [] self = SRC -> "src_send"
                                         [] self = IH -> "ih_sel"
@@ -580,6 +587,10 @@ Init == (* Global variables *)
 
 el_wait == /\ pc[EL] = "el_wait"
            /\ \/ /\ installQ # {} /\ idxR = 0 /\ ~idxW
+                 /\ IF pc[CE] \in {"ce_send", "ce_sent"}
+                       THEN /\ devUsed' = (devUsed \cup {"D11"})
+                       ELSE /\ TRUE
+                            /\ UNCHANGED devUsed
                  /\ \E s \in installQ:
                       /\ f' = s
                       /\ installQ' = installQ \ {s}
@@ -591,6 +602,10 @@ el_wait == /\ pc[EL] = "el_wait"
                        ELSE /\ pc' = [pc EXCEPT ![EL] = "el_i_addchk"]
                  /\ UNCHANGED <<uninstallQ, ech, inUse>>
               \/ /\ uninstallQ # {} /\ idxR = 0 /\ ~idxW
+                 /\ IF pc[CE] \in {"ce_send", "ce_sent"}
+                       THEN /\ devUsed' = (devUsed \cup {"D11"})
+                       ELSE /\ TRUE
+                            /\ UNCHANGED devUsed
                  /\ \E s \in uninstallQ:
                       /\ f' = s
                       /\ uninstallQ' = uninstallQ \ {s}
@@ -603,43 +618,45 @@ el_wait == /\ pc[EL] = "el_wait"
                        THEN /\ pc' = [pc EXCEPT ![EL] = "el_u_unlock"]
                        ELSE /\ pc' = [pc EXCEPT ![EL] = "el_u_remove"]
                  /\ UNCHANGED installQ
-           /\ UNCHANGED << crashed, busTopics, busSubs, subCh, idxR, 
+           /\ UNCHANGED << crashed, busTopics, busSubs, topW, subCh, idxR, 
                            topicChans, chans, nextChan, installed, errClosed, 
                            subTopic, subState, unReq, resp, emitted, fmu, 
                            filters, timer, coSpawned, ticks, fires, 
                            latestBlock, lastIndexed, hdr, newBlockSig, quitBuf, 
-                           quit, addOk, cch, pch, pt, ptOk, round, cs, ct, 
-                           seen, ok, polls, found, me, h, lb, sent >>
+                           quit, addOk, cch, pch, ptOk, round, cs, ct, seen, 
+                           ok, polls, found, me, h, lb, sent >>
 
 el_i_addchk == /\ pc[EL] = "el_i_addchk"
+               /\ ~topW
                /\ addOk' = (busTopics[ft] = 0)
-               /\ pc' = [pc EXCEPT ![EL] = "el_i_add"]
-               /\ UNCHANGED << crashed, busTopics, busSubs, subCh, idxR, idxW, 
-                               index, topicChans, chans, nextChan, installQ, 
-                               uninstallQ, installed, errClosed, subTopic, 
-                               subState, unReq, resp, emitted, fmu, filters, 
-                               timer, coSpawned, ticks, fires, latestBlock, 
-                               lastIndexed, hdr, newBlockSig, quitBuf, quit, f, 
-                               ft, ech, inUse, cch, pch, pt, ptOk, round, cs, 
-                               ct, seen, ok, polls, found, me, h, lb, sent >>
+               /\ IF ~addOk'
+                     THEN /\ pc' = [pc EXCEPT ![EL] = "el_i_unlock"]
+                     ELSE /\ pc' = [pc EXCEPT ![EL] = "el_i_add"]
+               /\ UNCHANGED << crashed, busTopics, busSubs, topW, devUsed, 
+                               subCh, idxR, idxW, index, topicChans, chans, 
+                               nextChan, installQ, uninstallQ, installed, 
+                               errClosed, subTopic, subState, unReq, resp, 
+                               emitted, fmu, filters, timer, coSpawned, ticks, 
+                               fires, latestBlock, lastIndexed, hdr, 
+                               newBlockSig, quitBuf, quit, f, ft, ech, inUse, 
+                               cch, pch, ptOk, round, cs, ct, seen, ok, polls, 
+                               found, me, h, lb, sent >>
 
 el_i_add == /\ pc[EL] = "el_i_add"
-            /\ IF addOk
-                  THEN /\ ech' = nextChan
-                       /\ nextChan' = nextChan + 1
-                       /\ busTopics' = [busTopics EXCEPT ![ft] = ech']
-                       /\ chans' = [chans EXCEPT ![ech'].topic = ft]
-                  ELSE /\ TRUE
-                       /\ UNCHANGED << busTopics, chans, nextChan, ech >>
+            /\ ~topW
+            /\ ech' = nextChan
+            /\ nextChan' = nextChan + 1
+            /\ busTopics' = [busTopics EXCEPT ![ft] = ech']
+            /\ chans' = [chans EXCEPT ![ech'].topic = ft]
             /\ pc' = [pc EXCEPT ![EL] = "el_i_unlock"]
-            /\ UNCHANGED << crashed, busSubs, subCh, idxR, idxW, index, 
-                            topicChans, installQ, uninstallQ, installed, 
+            /\ UNCHANGED << crashed, busSubs, topW, devUsed, subCh, idxR, idxW, 
+                            index, topicChans, installQ, uninstallQ, installed, 
                             errClosed, subTopic, subState, unReq, resp, 
                             emitted, fmu, filters, timer, coSpawned, ticks, 
                             fires, latestBlock, lastIndexed, hdr, newBlockSig, 
-                            quitBuf, quit, f, ft, addOk, inUse, cch, pch, pt, 
-                            ptOk, round, cs, ct, seen, ok, polls, found, me, h, 
-                            lb, sent >>
+                            quitBuf, quit, f, ft, addOk, inUse, cch, pch, ptOk, 
+                            round, cs, ct, seen, ok, polls, found, me, h, lb, 
+                            sent >>
 
 el_i_unlock == /\ pc[EL] = "el_i_unlock"
                /\ IF addOk
@@ -648,27 +665,27 @@ el_i_unlock == /\ pc[EL] = "el_i_unlock"
                           /\ UNCHANGED topicChans
                /\ idxW' = FALSE
                /\ pc' = [pc EXCEPT ![EL] = "el_i_done"]
-               /\ UNCHANGED << crashed, busTopics, busSubs, subCh, idxR, index, 
-                               chans, nextChan, installQ, uninstallQ, 
-                               installed, errClosed, subTopic, subState, unReq, 
-                               resp, emitted, fmu, filters, timer, coSpawned, 
-                               ticks, fires, latestBlock, lastIndexed, hdr, 
-                               newBlockSig, quitBuf, quit, f, ft, ech, addOk, 
-                               inUse, cch, pch, pt, ptOk, round, cs, ct, seen, 
-                               ok, polls, found, me, h, lb, sent >>
+               /\ UNCHANGED << crashed, busTopics, busSubs, topW, devUsed, 
+                               subCh, idxR, index, chans, nextChan, installQ, 
+                               uninstallQ, installed, errClosed, subTopic, 
+                               subState, unReq, resp, emitted, fmu, filters, 
+                               timer, coSpawned, ticks, fires, latestBlock, 
+                               lastIndexed, hdr, newBlockSig, quitBuf, quit, f, 
+                               ft, ech, addOk, inUse, cch, pch, ptOk, round, 
+                               cs, ct, seen, ok, polls, found, me, h, lb, sent >>
 
 el_i_unlock0 == /\ pc[EL] = "el_i_unlock0"
                 /\ idxW' = FALSE
                 /\ pc' = [pc EXCEPT ![EL] = "el_i_done"]
-                /\ UNCHANGED << crashed, busTopics, busSubs, subCh, idxR, 
-                                index, topicChans, chans, nextChan, installQ, 
-                                uninstallQ, installed, errClosed, subTopic, 
-                                subState, unReq, resp, emitted, fmu, filters, 
-                                timer, coSpawned, ticks, fires, latestBlock, 
-                                lastIndexed, hdr, newBlockSig, quitBuf, quit, 
-                                f, ft, ech, addOk, inUse, cch, pch, pt, ptOk, 
-                                round, cs, ct, seen, ok, polls, found, me, h, 
-                                lb, sent >>
+                /\ UNCHANGED << crashed, busTopics, busSubs, topW, devUsed, 
+                                subCh, idxR, index, topicChans, chans, 
+                                nextChan, installQ, uninstallQ, installed, 
+                                errClosed, subTopic, subState, unReq, resp, 
+                                emitted, fmu, filters, timer, coSpawned, ticks, 
+                                fires, latestBlock, lastIndexed, hdr, 
+                                newBlockSig, quitBuf, quit, f, ft, ech, addOk, 
+                                inUse, cch, pch, ptOk, round, cs, ct, seen, ok, 
+                                polls, found, me, h, lb, sent >>
 
 el_i_done == /\ pc[EL] = "el_i_done"
              /\ installed' = [installed EXCEPT ![f] = TRUE]
@@ -677,27 +694,28 @@ el_i_done == /\ pc[EL] = "el_i_done"
              /\ ech' = 0
              /\ addOk' = FALSE
              /\ pc' = [pc EXCEPT ![EL] = "el_wait"]
-             /\ UNCHANGED << crashed, busTopics, busSubs, subCh, idxR, idxW, 
-                             index, topicChans, chans, nextChan, installQ, 
-                             uninstallQ, errClosed, subTopic, subState, unReq, 
-                             resp, emitted, fmu, filters, timer, coSpawned, 
-                             ticks, fires, latestBlock, lastIndexed, hdr, 
-                             newBlockSig, quitBuf, quit, inUse, cch, pch, pt, 
-                             ptOk, round, cs, ct, seen, ok, polls, found, me, 
-                             h, lb, sent >>
+             /\ UNCHANGED << crashed, busTopics, busSubs, topW, devUsed, subCh, 
+                             idxR, idxW, index, topicChans, chans, nextChan, 
+                             installQ, uninstallQ, errClosed, subTopic, 
+                             subState, unReq, resp, emitted, fmu, filters, 
+                             timer, coSpawned, ticks, fires, latestBlock, 
+                             lastIndexed, hdr, newBlockSig, quitBuf, quit, 
+                             inUse, cch, pch, ptOk, round, cs, ct, seen, ok, 
+                             polls, found, me, h, lb, sent >>
 
 el_u_remove == /\ pc[EL] = "el_u_remove"
+               /\ ~topW
                /\ busTopics' = [busTopics EXCEPT ![ft] = 0]
                /\ pc' = [pc EXCEPT ![EL] = "el_u_close"]
-               /\ UNCHANGED << crashed, busSubs, subCh, idxR, idxW, index, 
-                               topicChans, chans, nextChan, installQ, 
-                               uninstallQ, installed, errClosed, subTopic, 
-                               subState, unReq, resp, emitted, fmu, filters, 
-                               timer, coSpawned, ticks, fires, latestBlock, 
-                               lastIndexed, hdr, newBlockSig, quitBuf, quit, f, 
-                               ft, ech, addOk, inUse, cch, pch, pt, ptOk, 
-                               round, cs, ct, seen, ok, polls, found, me, h, 
-                               lb, sent >>
+               /\ UNCHANGED << crashed, busSubs, topW, devUsed, subCh, idxR, 
+                               idxW, index, topicChans, chans, nextChan, 
+                               installQ, uninstallQ, installed, errClosed, 
+                               subTopic, subState, unReq, resp, emitted, fmu, 
+                               filters, timer, coSpawned, ticks, fires, 
+                               latestBlock, lastIndexed, hdr, newBlockSig, 
+                               quitBuf, quit, f, ft, ech, addOk, inUse, cch, 
+                               pch, ptOk, round, cs, ct, seen, ok, polls, 
+                               found, me, h, lb, sent >>
 
 el_u_close == /\ pc[EL] = "el_u_close"
               /\ IF chans[ech].closed
@@ -707,27 +725,27 @@ el_u_close == /\ pc[EL] = "el_u_close"
                          /\ UNCHANGED crashed
               /\ topicChans' = [topicChans EXCEPT ![ft] = 0]
               /\ pc' = [pc EXCEPT ![EL] = "el_u_unlock"]
-              /\ UNCHANGED << busTopics, busSubs, subCh, idxR, idxW, index, 
-                              nextChan, installQ, uninstallQ, installed, 
-                              errClosed, subTopic, subState, unReq, resp, 
-                              emitted, fmu, filters, timer, coSpawned, ticks, 
-                              fires, latestBlock, lastIndexed, hdr, 
+              /\ UNCHANGED << busTopics, busSubs, topW, devUsed, subCh, idxR, 
+                              idxW, index, nextChan, installQ, uninstallQ, 
+                              installed, errClosed, subTopic, subState, unReq, 
+                              resp, emitted, fmu, filters, timer, coSpawned, 
+                              ticks, fires, latestBlock, lastIndexed, hdr, 
                               newBlockSig, quitBuf, quit, f, ft, ech, addOk, 
-                              inUse, cch, pch, pt, ptOk, round, cs, ct, seen, 
-                              ok, polls, found, me, h, lb, sent >>
+                              inUse, cch, pch, ptOk, round, cs, ct, seen, ok, 
+                              polls, found, me, h, lb, sent >>
 
 el_u_unlock == /\ pc[EL] = "el_u_unlock"
                /\ idxW' = FALSE
                /\ pc' = [pc EXCEPT ![EL] = "el_u_done"]
-               /\ UNCHANGED << crashed, busTopics, busSubs, subCh, idxR, index, 
-                               topicChans, chans, nextChan, installQ, 
-                               uninstallQ, installed, errClosed, subTopic, 
-                               subState, unReq, resp, emitted, fmu, filters, 
-                               timer, coSpawned, ticks, fires, latestBlock, 
-                               lastIndexed, hdr, newBlockSig, quitBuf, quit, f, 
-                               ft, ech, addOk, inUse, cch, pch, pt, ptOk, 
-                               round, cs, ct, seen, ok, polls, found, me, h, 
-                               lb, sent >>
+               /\ UNCHANGED << crashed, busTopics, busSubs, topW, devUsed, 
+                               subCh, idxR, index, topicChans, chans, nextChan, 
+                               installQ, uninstallQ, installed, errClosed, 
+                               subTopic, subState, unReq, resp, emitted, fmu, 
+                               filters, timer, coSpawned, ticks, fires, 
+                               latestBlock, lastIndexed, hdr, newBlockSig, 
+                               quitBuf, quit, f, ft, ech, addOk, inUse, cch, 
+                               pch, ptOk, round, cs, ct, seen, ok, polls, 
+                               found, me, h, lb, sent >>
 
 el_u_done == /\ pc[EL] = "el_u_done"
              /\ IF errClosed[f]
@@ -740,13 +758,14 @@ el_u_done == /\ pc[EL] = "el_u_done"
              /\ ech' = 0
              /\ inUse' = FALSE
              /\ pc' = [pc EXCEPT ![EL] = "el_wait"]
-             /\ UNCHANGED << busTopics, busSubs, subCh, idxR, idxW, index, 
-                             topicChans, chans, nextChan, installQ, uninstallQ, 
-                             installed, subTopic, subState, unReq, resp, 
-                             emitted, fmu, filters, timer, coSpawned, ticks, 
-                             fires, latestBlock, lastIndexed, hdr, newBlockSig, 
-                             quitBuf, quit, addOk, cch, pch, pt, ptOk, round, 
-                             cs, ct, seen, ok, polls, found, me, h, lb, sent >>
+             /\ UNCHANGED << busTopics, busSubs, topW, devUsed, subCh, idxR, 
+                             idxW, index, topicChans, chans, nextChan, 
+                             installQ, uninstallQ, installed, subTopic, 
+                             subState, unReq, resp, emitted, fmu, filters, 
+                             timer, coSpawned, ticks, fires, latestBlock, 
+                             lastIndexed, hdr, newBlockSig, quitBuf, quit, 
+                             addOk, cch, pch, ptOk, round, cs, ct, seen, ok, 
+                             polls, found, me, h, lb, sent >>
 
 eventLoop == el_wait \/ el_i_addchk \/ el_i_add \/ el_i_unlock
                 \/ el_i_unlock0 \/ el_i_done \/ el_u_remove \/ el_u_close
@@ -763,14 +782,14 @@ ce_lookup == /\ pc[CE] = "ce_lookup"
              /\ IF cch' # 0
                    THEN /\ pc' = [pc EXCEPT ![CE] = "ce_send"]
                    ELSE /\ pc' = [pc EXCEPT ![CE] = "ce_lookup"]
-             /\ UNCHANGED << crashed, busTopics, busSubs, subCh, idxW, index, 
-                             topicChans, chans, nextChan, installQ, uninstallQ, 
-                             installed, errClosed, subTopic, subState, unReq, 
-                             emitted, fmu, filters, timer, coSpawned, ticks, 
-                             fires, latestBlock, lastIndexed, hdr, newBlockSig, 
-                             quitBuf, quit, f, ft, ech, addOk, inUse, pch, pt, 
-                             ptOk, round, cs, ct, seen, ok, polls, found, me, 
-                             h, lb, sent >>
+             /\ UNCHANGED << crashed, busTopics, busSubs, topW, devUsed, subCh, 
+                             idxW, index, topicChans, chans, nextChan, 
+                             installQ, uninstallQ, installed, errClosed, 
+                             subTopic, subState, unReq, emitted, fmu, filters, 
+                             timer, coSpawned, ticks, fires, latestBlock, 
+                             lastIndexed, hdr, newBlockSig, quitBuf, quit, f, 
+                             ft, ech, addOk, inUse, pch, ptOk, round, cs, ct, 
+                             seen, ok, polls, found, me, h, lb, sent >>
 
 ce_send == /\ pc[CE] = "ce_send"
            /\ IF chans[cch].closed
@@ -779,18 +798,21 @@ ce_send == /\ pc[CE] = "ce_send"
                  ELSE /\ chans' = [chans EXCEPT ![cch].offer = 1]
                       /\ UNCHANGED crashed
            /\ pc' = [pc EXCEPT ![CE] = "ce_sent"]
-           /\ UNCHANGED << busTopics, busSubs, subCh, idxR, idxW, index, 
-                           topicChans, nextChan, installQ, uninstallQ, 
-                           installed, errClosed, subTopic, subState, unReq, 
-                           resp, emitted, fmu, filters, timer, coSpawned, 
-                           ticks, fires, latestBlock, lastIndexed, hdr, 
-                           newBlockSig, quitBuf, quit, f, ft, ech, addOk, 
-                           inUse, cch, pch, pt, ptOk, round, cs, ct, seen, ok, 
+           /\ UNCHANGED << busTopics, busSubs, topW, devUsed, subCh, idxR, 
+                           idxW, index, topicChans, nextChan, installQ, 
+                           uninstallQ, installed, errClosed, subTopic, 
+                           subState, unReq, resp, emitted, fmu, filters, timer, 
+                           coSpawned, ticks, fires, latestBlock, lastIndexed, 
+                           hdr, newBlockSig, quitBuf, quit, f, ft, ech, addOk, 
+                           inUse, cch, pch, ptOk, round, cs, ct, seen, ok, 
                            polls, found, me, h, lb, sent >>
 
 ce_sent == /\ pc[CE] = "ce_sent"
            /\ \/ /\ chans[cch].offer = 2
                  /\ chans' = [chans EXCEPT ![cch].offer = 0]
+                 /\ UNCHANGED crashed
+              \/ /\ TraceMode /\ chans[cch].offer = 1
+                 /\ chans' = [chans EXCEPT ![cch] = [chans[cch] EXCEPT !.offer = 0, !.inflight = @ + 1]]
                  /\ UNCHANGED crashed
               \/ /\ chans[cch].offer = 1 /\ ~chans[cch].closed
                  /\ chans' = [chans EXCEPT ![cch].offer = 0]
@@ -804,100 +826,90 @@ ce_sent == /\ pc[CE] = "ce_sent"
                       /\ idxR' = idxR
            /\ cch' = 0
            /\ pc' = [pc EXCEPT ![CE] = "ce_lookup"]
-           /\ UNCHANGED << busTopics, busSubs, subCh, idxW, index, topicChans, 
-                           nextChan, installQ, uninstallQ, installed, 
-                           errClosed, subTopic, subState, unReq, resp, emitted, 
-                           fmu, filters, timer, coSpawned, ticks, fires, 
-                           latestBlock, lastIndexed, hdr, newBlockSig, quitBuf, 
-                           quit, f, ft, ech, addOk, inUse, pch, pt, ptOk, 
-                           round, cs, ct, seen, ok, polls, found, me, h, lb, 
-                           sent >>
+           /\ UNCHANGED << busTopics, busSubs, topW, devUsed, subCh, idxW, 
+                           index, topicChans, nextChan, installQ, uninstallQ, 
+                           installed, errClosed, subTopic, subState, unReq, 
+                           resp, emitted, fmu, filters, timer, coSpawned, 
+                           ticks, fires, latestBlock, lastIndexed, hdr, 
+                           newBlockSig, quitBuf, quit, f, ft, ech, addOk, 
+                           inUse, pch, ptOk, round, cs, ct, seen, ok, polls, 
+                           found, me, h, lb, sent >>
 
 consumeEvents == ce_lookup \/ ce_send \/ ce_sent
 
-pt_recv(self) == /\ pc[self] = "pt_recv"
-                 /\ chans[pch[self]].topic # 0
-                 /\ pt' = [pt EXCEPT ![self] = chans[pch[self]].topic]
-                 /\ pc' = [pc EXCEPT ![self] = "pt_loop"]
-                 /\ UNCHANGED << crashed, busTopics, busSubs, subCh, idxR, 
-                                 idxW, index, topicChans, chans, nextChan, 
-                                 installQ, uninstallQ, installed, errClosed, 
-                                 subTopic, subState, unReq, resp, emitted, fmu, 
-                                 filters, timer, coSpawned, ticks, fires, 
-                                 latestBlock, lastIndexed, hdr, newBlockSig, 
-                                 quitBuf, quit, f, ft, ech, addOk, inUse, cch, 
-                                 pch, ptOk, round, cs, ct, seen, ok, polls, 
-                                 found, me, h, lb, sent >>
-
 pt_loop(self) == /\ pc[self] = "pt_loop"
-                 /\ \/ /\ chans[pch[self]].offer = 1
+                 /\ \/ /\ chans[pch[self]].topic # 0 /\ chans[pch[self]].inflight = 0 /\ chans[pch[self]].offer = 1
                        /\ chans' = [chans EXCEPT ![pch[self]].offer = 2]
                        /\ ptOk' = [ptOk EXCEPT ![self] = TRUE]
-                    \/ /\ chans[pch[self]].closed /\ chans[pch[self]].offer # 1
+                    \/ /\ chans[pch[self]].topic # 0 /\ chans[pch[self]].inflight > 0
+                       /\ chans' = [chans EXCEPT ![pch[self]].inflight = chans[pch[self]].inflight - 1]
+                       /\ ptOk' = [ptOk EXCEPT ![self] = TRUE]
+                    \/ /\ chans[pch[self]].topic # 0 /\ chans[pch[self]].closed /\ chans[pch[self]].inflight = 0
                        /\ ptOk' = [ptOk EXCEPT ![self] = FALSE]
                        /\ chans' = chans
                  /\ IF ptOk'[self]
                        THEN /\ pc' = [pc EXCEPT ![self] = "pt_pub"]
-                       ELSE /\ pc' = [pc EXCEPT ![self] = "pt_closeall"]
-                 /\ UNCHANGED << crashed, busTopics, busSubs, subCh, idxR, 
-                                 idxW, index, topicChans, nextChan, installQ, 
-                                 uninstallQ, installed, errClosed, subTopic, 
-                                 subState, unReq, resp, emitted, fmu, filters, 
-                                 timer, coSpawned, ticks, fires, latestBlock, 
-                                 lastIndexed, hdr, newBlockSig, quitBuf, quit, 
-                                 f, ft, ech, addOk, inUse, cch, pch, pt, round, 
-                                 cs, ct, seen, ok, polls, found, me, h, lb, 
-                                 sent >>
+                       ELSE /\ IF "D12" \notin Known
+                                  THEN /\ pc' = [pc EXCEPT ![self] = "pt_chk"]
+                                  ELSE /\ pc' = [pc EXCEPT ![self] = "pt_closeall"]
+                 /\ UNCHANGED << crashed, busTopics, busSubs, topW, devUsed, 
+                                 subCh, idxR, idxW, index, topicChans, 
+                                 nextChan, installQ, uninstallQ, installed, 
+                                 errClosed, subTopic, subState, unReq, resp, 
+                                 emitted, fmu, filters, timer, coSpawned, 
+                                 ticks, fires, latestBlock, lastIndexed, hdr, 
+                                 newBlockSig, quitBuf, quit, f, ft, ech, addOk, 
+                                 inUse, cch, pch, round, cs, ct, seen, ok, 
+                                 polls, found, me, h, lb, sent >>
 
 pt_pub(self) == /\ pc[self] = "pt_pub"
-                /\ IF \E x \in busSubs[pt[self]] : subCh[x].closed
+                /\ IF \E x \in busSubs[chans[pch[self]].topic] : subCh[x].closed
                       THEN /\ crashed' = "send on closed channel"
                            /\ subCh' = subCh
-                      ELSE /\ subCh' = [x \in Subs |-> IF x \in busSubs[pt[self]] THEN [subCh[x] EXCEPT !.buf = Min(@ + 1, BufCap)] ELSE subCh[x]]
+                      ELSE /\ subCh' = [x \in Subs |-> IF x \in busSubs[chans[pch[self]].topic] THEN [subCh[x] EXCEPT !.buf = Min(@ + 1, BufCap)] ELSE subCh[x]]
                            /\ UNCHANGED crashed
                 /\ ptOk' = [ptOk EXCEPT ![self] = FALSE]
                 /\ pc' = [pc EXCEPT ![self] = "pt_loop"]
-                /\ UNCHANGED << busTopics, busSubs, idxR, idxW, index, 
-                                topicChans, chans, nextChan, installQ, 
+                /\ UNCHANGED << busTopics, busSubs, topW, devUsed, idxR, idxW, 
+                                index, topicChans, chans, nextChan, installQ, 
                                 uninstallQ, installed, errClosed, subTopic, 
                                 subState, unReq, resp, emitted, fmu, filters, 
                                 timer, coSpawned, ticks, fires, latestBlock, 
                                 lastIndexed, hdr, newBlockSig, quitBuf, quit, 
-                                f, ft, ech, addOk, inUse, cch, pch, pt, round, 
-                                cs, ct, seen, ok, polls, found, me, h, lb, 
-                                sent >>
+                                f, ft, ech, addOk, inUse, cch, pch, round, cs, 
+                                ct, seen, ok, polls, found, me, h, lb, sent >>
 
 pt_closeall(self) == /\ pc[self] = "pt_closeall"
-                     /\ LET stale == ("D12" \notin Known) /\ busTopics[pt[self]] # 0 /\ busTopics[pt[self]] # pch[self] IN
-                          /\ IF ~stale
-                                THEN /\ IF \E x \in busSubs[pt[self]] : subCh[x].closed
-                                           THEN /\ crashed' = "close of closed channel"
-                                                /\ subCh' = subCh
-                                           ELSE /\ subCh' = [x \in Subs |-> IF x \in busSubs[pt[self]] THEN [subCh[x] EXCEPT !.closed = TRUE] ELSE subCh[x]]
-                                                /\ UNCHANGED crashed
-                                     /\ busSubs' = [busSubs EXCEPT ![pt[self]] = {}]
-                                ELSE /\ TRUE
-                                     /\ UNCHANGED << crashed, busSubs, subCh >>
-                          /\ IF "D12" \notin Known
-                                THEN /\ IF ~stale
-                                           THEN /\ busTopics' = [busTopics EXCEPT ![pt[self]] = 0]
-                                           ELSE /\ TRUE
-                                                /\ UNCHANGED busTopics
-                                     /\ pc' = [pc EXCEPT ![self] = "pt_done"]
-                                ELSE /\ pc' = [pc EXCEPT ![self] = "pt_del"]
-                                     /\ UNCHANGED busTopics
-                     /\ UNCHANGED << idxR, idxW, index, topicChans, chans, 
-                                     nextChan, installQ, uninstallQ, installed, 
-                                     errClosed, subTopic, subState, unReq, 
-                                     resp, emitted, fmu, filters, timer, 
-                                     coSpawned, ticks, fires, latestBlock, 
-                                     lastIndexed, hdr, newBlockSig, quitBuf, 
-                                     quit, f, ft, ech, addOk, inUse, cch, pch, 
-                                     pt, ptOk, round, cs, ct, seen, ok, polls, 
-                                     found, me, h, lb, sent >>
+                     /\ IF busTopics[chans[pch[self]].topic] # 0 /\ busTopics[chans[pch[self]].topic] # pch[self] /\ busSubs[chans[pch[self]].topic] # {}
+                           THEN /\ devUsed' = (devUsed \cup {"D12"})
+                           ELSE /\ TRUE
+                                /\ UNCHANGED devUsed
+                     /\ IF \E x \in busSubs[chans[pch[self]].topic] : subCh[x].closed
+                           THEN /\ crashed' = "close of closed channel"
+                                /\ subCh' = subCh
+                           ELSE /\ subCh' = [x \in Subs |-> IF x \in busSubs[chans[pch[self]].topic] THEN [subCh[x] EXCEPT !.closed = TRUE] ELSE subCh[x]]
+                                /\ UNCHANGED crashed
+                     /\ busSubs' = [busSubs EXCEPT ![chans[pch[self]].topic] = {}]
+                     /\ pc' = [pc EXCEPT ![self] = "pt_del"]
+                     /\ UNCHANGED << busTopics, topW, idxR, idxW, index, 
+                                     topicChans, chans, nextChan, installQ, 
+                                     uninstallQ, installed, errClosed, 
+                                     subTopic, subState, unReq, resp, emitted, 
+                                     fmu, filters, timer, coSpawned, ticks, 
+                                     fires, latestBlock, lastIndexed, hdr, 
+                                     newBlockSig, quitBuf, quit, f, ft, ech, 
+                                     addOk, inUse, cch, pch, ptOk, round, cs, 
+                                     ct, seen, ok, polls, found, me, h, lb, 
+                                     sent >>
 
 pt_del(self) == /\ pc[self] = "pt_del"
-                /\ busTopics' = [busTopics EXCEPT ![pt[self]] = 0]
+                /\ topW \/ "D12" \in Known
+                /\ IF busTopics[chans[pch[self]].topic] # 0 /\ busTopics[chans[pch[self]].topic] # pch[self]
+                      THEN /\ devUsed' = (devUsed \cup {"D12"})
+                      ELSE /\ TRUE
+                           /\ UNCHANGED devUsed
+                /\ busTopics' = [busTopics EXCEPT ![chans[pch[self]].topic] = 0]
+                /\ topW' = FALSE
                 /\ pc' = [pc EXCEPT ![self] = "pt_done"]
                 /\ UNCHANGED << crashed, busSubs, subCh, idxR, idxW, index, 
                                 topicChans, chans, nextChan, installQ, 
@@ -905,26 +917,42 @@ pt_del(self) == /\ pc[self] = "pt_del"
                                 subState, unReq, resp, emitted, fmu, filters, 
                                 timer, coSpawned, ticks, fires, latestBlock, 
                                 lastIndexed, hdr, newBlockSig, quitBuf, quit, 
-                                f, ft, ech, addOk, inUse, cch, pch, pt, ptOk, 
+                                f, ft, ech, addOk, inUse, cch, pch, ptOk, 
                                 round, cs, ct, seen, ok, polls, found, me, h, 
                                 lb, sent >>
+
+pt_chk(self) == /\ pc[self] = "pt_chk"
+                /\ ~topW
+                /\ IF busTopics[chans[pch[self]].topic] # 0 /\ busTopics[chans[pch[self]].topic] # pch[self]
+                      THEN /\ pc' = [pc EXCEPT ![self] = "pt_done"]
+                           /\ topW' = topW
+                      ELSE /\ topW' = TRUE
+                           /\ pc' = [pc EXCEPT ![self] = "pt_closeall"]
+                /\ UNCHANGED << crashed, busTopics, busSubs, devUsed, subCh, 
+                                idxR, idxW, index, topicChans, chans, nextChan, 
+                                installQ, uninstallQ, installed, errClosed, 
+                                subTopic, subState, unReq, resp, emitted, fmu, 
+                                filters, timer, coSpawned, ticks, fires, 
+                                latestBlock, lastIndexed, hdr, newBlockSig, 
+                                quitBuf, quit, f, ft, ech, addOk, inUse, cch, 
+                                pch, ptOk, round, cs, ct, seen, ok, polls, 
+                                found, me, h, lb, sent >>
 
 pt_done(self) == /\ pc[self] = "pt_done"
                  /\ TRUE
                  /\ pc' = [pc EXCEPT ![self] = "Done"]
-                 /\ UNCHANGED << crashed, busTopics, busSubs, subCh, idxR, 
-                                 idxW, index, topicChans, chans, nextChan, 
-                                 installQ, uninstallQ, installed, errClosed, 
-                                 subTopic, subState, unReq, resp, emitted, fmu, 
-                                 filters, timer, coSpawned, ticks, fires, 
-                                 latestBlock, lastIndexed, hdr, newBlockSig, 
-                                 quitBuf, quit, f, ft, ech, addOk, inUse, cch, 
-                                 pch, pt, ptOk, round, cs, ct, seen, ok, polls, 
-                                 found, me, h, lb, sent >>
+                 /\ UNCHANGED << crashed, busTopics, busSubs, topW, devUsed, 
+                                 subCh, idxR, idxW, index, topicChans, chans, 
+                                 nextChan, installQ, uninstallQ, installed, 
+                                 errClosed, subTopic, subState, unReq, resp, 
+                                 emitted, fmu, filters, timer, coSpawned, 
+                                 ticks, fires, latestBlock, lastIndexed, hdr, 
+                                 newBlockSig, quitBuf, quit, f, ft, ech, addOk, 
+                                 inUse, cch, pch, ptOk, round, cs, ct, seen, 
+                                 ok, polls, found, me, h, lb, sent >>
 
-publishTopic(self) == pt_recv(self) \/ pt_loop(self) \/ pt_pub(self)
-                         \/ pt_closeall(self) \/ pt_del(self)
-                         \/ pt_done(self)
+publishTopic(self) == pt_loop(self) \/ pt_pub(self) \/ pt_closeall(self)
+                         \/ pt_del(self) \/ pt_chk(self) \/ pt_done(self)
 
 c_begin(self) == /\ pc[self] = "c_begin"
                  /\ IF round[self] <= Rounds
@@ -932,105 +960,122 @@ c_begin(self) == /\ pc[self] = "c_begin"
                                   THEN /\ pc' = [pc EXCEPT ![self] = "c_flock"]
                                   ELSE /\ pc' = [pc EXCEPT ![self] = "c_topics"]
                        ELSE /\ pc' = [pc EXCEPT ![self] = "Done"]
-                 /\ UNCHANGED << crashed, busTopics, busSubs, subCh, idxR, 
-                                 idxW, index, topicChans, chans, nextChan, 
-                                 installQ, uninstallQ, installed, errClosed, 
-                                 subTopic, subState, unReq, resp, emitted, fmu, 
-                                 filters, timer, coSpawned, ticks, fires, 
-                                 latestBlock, lastIndexed, hdr, newBlockSig, 
-                                 quitBuf, quit, f, ft, ech, addOk, inUse, cch, 
-                                 pch, pt, ptOk, round, cs, ct, seen, ok, polls, 
-                                 found, me, h, lb, sent >>
+                 /\ UNCHANGED << crashed, busTopics, busSubs, topW, devUsed, 
+                                 subCh, idxR, idxW, index, topicChans, chans, 
+                                 nextChan, installQ, uninstallQ, installed, 
+                                 errClosed, subTopic, subState, unReq, resp, 
+                                 emitted, fmu, filters, timer, coSpawned, 
+                                 ticks, fires, latestBlock, lastIndexed, hdr, 
+                                 newBlockSig, quitBuf, quit, f, ft, ech, addOk, 
+                                 inUse, cch, pch, ptOk, round, cs, ct, seen, 
+                                 ok, polls, found, me, h, lb, sent >>
 
 c_topics(self) == /\ pc[self] = "c_topics"
+                  /\ ~topW
                   /\ \E tt \in Topics:
                        ct' = [ct EXCEPT ![self] = tt]
                   /\ subTopic' = [subTopic EXCEPT ![cs[self]] = ct'[self]]
                   /\ IF "D18" \notin Known
                         THEN /\ installQ' = (installQ \cup {cs[self]})
                              /\ pc' = [pc EXCEPT ![self] = "c_bsub1"]
-                             /\ seen' = seen
+                             /\ UNCHANGED << devUsed, seen >>
                         ELSE /\ seen' = [seen EXCEPT ![self] = busTopics[ct'[self]] # 0]
                              /\ IF seen'[self]
-                                   THEN /\ pc' = [pc EXCEPT ![self] = "c_bsub1"]
+                                   THEN /\ devUsed' = (devUsed \cup {"D18"})
+                                        /\ pc' = [pc EXCEPT ![self] = "c_bsub1"]
                                    ELSE /\ pc' = [pc EXCEPT ![self] = "c_inst"]
+                                        /\ UNCHANGED devUsed
                              /\ UNCHANGED installQ
-                  /\ UNCHANGED << crashed, busTopics, busSubs, subCh, idxR, 
-                                  idxW, index, topicChans, chans, nextChan, 
-                                  uninstallQ, installed, errClosed, subState, 
-                                  unReq, resp, emitted, fmu, filters, timer, 
-                                  coSpawned, ticks, fires, latestBlock, 
+                  /\ UNCHANGED << crashed, busTopics, busSubs, topW, subCh, 
+                                  idxR, idxW, index, topicChans, chans, 
+                                  nextChan, uninstallQ, installed, errClosed, 
+                                  subState, unReq, resp, emitted, fmu, filters, 
+                                  timer, coSpawned, ticks, fires, latestBlock, 
                                   lastIndexed, hdr, newBlockSig, quitBuf, quit, 
-                                  f, ft, ech, addOk, inUse, cch, pch, pt, ptOk, 
+                                  f, ft, ech, addOk, inUse, cch, pch, ptOk, 
                                   round, cs, ok, polls, found, me, h, lb, sent >>
 
 c_inst(self) == /\ pc[self] = "c_inst"
                 /\ installQ' = (installQ \cup {cs[self]})
                 /\ pc' = [pc EXCEPT ![self] = "c_bsub1"]
-                /\ UNCHANGED << crashed, busTopics, busSubs, subCh, idxR, idxW, 
-                                index, topicChans, chans, nextChan, uninstallQ, 
-                                installed, errClosed, subTopic, subState, 
-                                unReq, resp, emitted, fmu, filters, timer, 
-                                coSpawned, ticks, fires, latestBlock, 
-                                lastIndexed, hdr, newBlockSig, quitBuf, quit, 
-                                f, ft, ech, addOk, inUse, cch, pch, pt, ptOk, 
-                                round, cs, ct, seen, ok, polls, found, me, h, 
-                                lb, sent >>
+                /\ UNCHANGED << crashed, busTopics, busSubs, topW, devUsed, 
+                                subCh, idxR, idxW, index, topicChans, chans, 
+                                nextChan, uninstallQ, installed, errClosed, 
+                                subTopic, subState, unReq, resp, emitted, fmu, 
+                                filters, timer, coSpawned, ticks, fires, 
+                                latestBlock, lastIndexed, hdr, newBlockSig, 
+                                quitBuf, quit, f, ft, ech, addOk, inUse, cch, 
+                                pch, ptOk, round, cs, ct, seen, ok, polls, 
+                                found, me, h, lb, sent >>
 
 c_bsub1(self) == /\ pc[self] = "c_bsub1"
-                 /\ seen[self] \/ installed[cs[self]]
+                 /\ (seen[self] \/ installed[cs[self]]) /\ ~topW
                  /\ ok' = [ok EXCEPT ![self] = busTopics[ct[self]] # 0]
-                 /\ pc' = [pc EXCEPT ![self] = "c_bsub2"]
-                 /\ UNCHANGED << crashed, busTopics, busSubs, subCh, idxR, 
-                                 idxW, index, topicChans, chans, nextChan, 
-                                 installQ, uninstallQ, installed, errClosed, 
-                                 subTopic, subState, unReq, resp, emitted, fmu, 
-                                 filters, timer, coSpawned, ticks, fires, 
+                 /\ IF ~ok'[self]
+                       THEN /\ subState' = [subState EXCEPT ![cs[self]] = "failed"]
+                            /\ IF Api
+                                  THEN /\ pc' = [pc EXCEPT ![self] = "c_funlock"]
+                                  ELSE /\ pc' = [pc EXCEPT ![self] = "c_next"]
+                       ELSE /\ pc' = [pc EXCEPT ![self] = "c_bsub2"]
+                            /\ UNCHANGED subState
+                 /\ UNCHANGED << crashed, busTopics, busSubs, topW, devUsed, 
+                                 subCh, idxR, idxW, index, topicChans, chans, 
+                                 nextChan, installQ, uninstallQ, installed, 
+                                 errClosed, subTopic, unReq, resp, emitted, 
+                                 fmu, filters, timer, coSpawned, ticks, fires, 
                                  latestBlock, lastIndexed, hdr, newBlockSig, 
                                  quitBuf, quit, f, ft, ech, addOk, inUse, cch, 
-                                 pch, pt, ptOk, round, cs, ct, seen, polls, 
-                                 found, me, h, lb, sent >>
+                                 pch, ptOk, round, cs, ct, seen, polls, found, 
+                                 me, h, lb, sent >>
 
 c_bsub2(self) == /\ pc[self] = "c_bsub2"
-                 /\ IF ok[self]
-                       THEN /\ busSubs' = [busSubs EXCEPT ![ct[self]] = busSubs[ct[self]] \cup {cs[self]}]
-                            /\ IF ~Api
-                                  THEN /\ subState' = [subState EXCEPT ![cs[self]] = "live"]
-                                  ELSE /\ TRUE
-                                       /\ UNCHANGED subState
-                       ELSE /\ subState' = [subState EXCEPT ![cs[self]] = "failed"]
-                            /\ UNCHANGED busSubs
+                 /\ busSubs' = [busSubs EXCEPT ![ct[self]] = busSubs[ct[self]] \cup {cs[self]}]
+                 /\ IF ~Api
+                       THEN /\ subState' = [subState EXCEPT ![cs[self]] = "live"]
+                       ELSE /\ TRUE
+                            /\ UNCHANGED subState
                  /\ IF Api
-                       THEN /\ IF ok[self]
-                                  THEN /\ pc' = [pc EXCEPT ![self] = "c_fadd"]
-                                  ELSE /\ pc' = [pc EXCEPT ![self] = "c_funlock"]
-                       ELSE /\ IF ~ok[self]
-                                  THEN /\ pc' = [pc EXCEPT ![self] = "c_next"]
-                                  ELSE /\ pc' = [pc EXCEPT ![self] = "c_recv"]
-                 /\ UNCHANGED << crashed, busTopics, subCh, idxR, idxW, index, 
-                                 topicChans, chans, nextChan, installQ, 
-                                 uninstallQ, installed, errClosed, subTopic, 
-                                 unReq, resp, emitted, fmu, filters, timer, 
-                                 coSpawned, ticks, fires, latestBlock, 
-                                 lastIndexed, hdr, newBlockSig, quitBuf, quit, 
-                                 f, ft, ech, addOk, inUse, cch, pch, pt, ptOk, 
-                                 round, cs, ct, seen, ok, polls, found, me, h, 
-                                 lb, sent >>
+                       THEN /\ pc' = [pc EXCEPT ![self] = "c_fadd"]
+                       ELSE /\ pc' = [pc EXCEPT ![self] = "c_recv"]
+                 /\ UNCHANGED << crashed, busTopics, topW, devUsed, subCh, 
+                                 idxR, idxW, index, topicChans, chans, 
+                                 nextChan, installQ, uninstallQ, installed, 
+                                 errClosed, subTopic, unReq, resp, emitted, 
+                                 fmu, filters, timer, coSpawned, ticks, fires, 
+                                 latestBlock, lastIndexed, hdr, newBlockSig, 
+                                 quitBuf, quit, f, ft, ech, addOk, inUse, cch, 
+                                 pch, ptOk, round, cs, ct, seen, ok, polls, 
+                                 found, me, h, lb, sent >>
+
+c_fadd(self) == /\ pc[self] = "c_fadd"
+                /\ filters' = (filters \cup {cs[self]})
+                /\ timer' = [timer EXCEPT ![cs[self]] = "running"]
+                /\ coSpawned' = (coSpawned \cup {cs[self]})
+                /\ subState' = [subState EXCEPT ![cs[self]] = "live"]
+                /\ pc' = [pc EXCEPT ![self] = "c_funlock"]
+                /\ UNCHANGED << crashed, busTopics, busSubs, topW, devUsed, 
+                                subCh, idxR, idxW, index, topicChans, chans, 
+                                nextChan, installQ, uninstallQ, installed, 
+                                errClosed, subTopic, unReq, resp, emitted, fmu, 
+                                ticks, fires, latestBlock, lastIndexed, hdr, 
+                                newBlockSig, quitBuf, quit, f, ft, ech, addOk, 
+                                inUse, cch, pch, ptOk, round, cs, ct, seen, ok, 
+                                polls, found, me, h, lb, sent >>
 
 c_funlock(self) == /\ pc[self] = "c_funlock"
                    /\ fmu' = 0
                    /\ IF ~ok[self]
                          THEN /\ pc' = [pc EXCEPT ![self] = "c_next"]
                          ELSE /\ pc' = [pc EXCEPT ![self] = "c_use"]
-                   /\ UNCHANGED << crashed, busTopics, busSubs, subCh, idxR, 
-                                   idxW, index, topicChans, chans, nextChan, 
-                                   installQ, uninstallQ, installed, errClosed, 
-                                   subTopic, subState, unReq, resp, emitted, 
-                                   filters, timer, coSpawned, ticks, fires, 
-                                   latestBlock, lastIndexed, hdr, newBlockSig, 
-                                   quitBuf, quit, f, ft, ech, addOk, inUse, 
-                                   cch, pch, pt, ptOk, round, cs, ct, seen, ok, 
-                                   polls, found, me, h, lb, sent >>
+                   /\ UNCHANGED << crashed, busTopics, busSubs, topW, devUsed, 
+                                   subCh, idxR, idxW, index, topicChans, chans, 
+                                   nextChan, installQ, uninstallQ, installed, 
+                                   errClosed, subTopic, subState, unReq, resp, 
+                                   emitted, filters, timer, coSpawned, ticks, 
+                                   fires, latestBlock, lastIndexed, hdr, 
+                                   newBlockSig, quitBuf, quit, f, ft, ech, 
+                                   addOk, inUse, cch, pch, ptOk, round, cs, ct, 
+                                   seen, ok, polls, found, me, h, lb, sent >>
 
 c_use(self) == /\ pc[self] = "c_use"
                /\ \/ /\ polls[self] < MaxPolls
@@ -1040,58 +1085,63 @@ c_use(self) == /\ pc[self] = "c_use"
                      /\ polls' = polls
                   \/ /\ pc' = [pc EXCEPT ![self] = "c_next"]
                      /\ polls' = polls
-               /\ UNCHANGED << crashed, busTopics, busSubs, subCh, idxR, idxW, 
-                               index, topicChans, chans, nextChan, installQ, 
-                               uninstallQ, installed, errClosed, subTopic, 
-                               subState, unReq, resp, emitted, fmu, filters, 
-                               timer, coSpawned, ticks, fires, latestBlock, 
-                               lastIndexed, hdr, newBlockSig, quitBuf, quit, f, 
-                               ft, ech, addOk, inUse, cch, pch, pt, ptOk, 
-                               round, cs, ct, seen, ok, found, me, h, lb, sent >>
+               /\ UNCHANGED << crashed, busTopics, busSubs, topW, devUsed, 
+                               subCh, idxR, idxW, index, topicChans, chans, 
+                               nextChan, installQ, uninstallQ, installed, 
+                               errClosed, subTopic, subState, unReq, resp, 
+                               emitted, fmu, filters, timer, coSpawned, ticks, 
+                               fires, latestBlock, lastIndexed, hdr, 
+                               newBlockSig, quitBuf, quit, f, ft, ech, addOk, 
+                               inUse, cch, pch, ptOk, round, cs, ct, seen, ok, 
+                               found, me, h, lb, sent >>
 
 g_lock(self) == /\ pc[self] = "g_lock"
                 /\ fmu = 0
                 /\ fmu' = self
                 /\ found' = [found EXCEPT ![self] = cs[self] \in filters]
-                /\ IF ~found'[self]
-                      THEN /\ pc' = [pc EXCEPT ![self] = "g_unlock"]
-                      ELSE /\ pc' = [pc EXCEPT ![self] = "g_timer"]
-                /\ UNCHANGED << crashed, busTopics, busSubs, subCh, idxR, idxW, 
-                                index, topicChans, chans, nextChan, installQ, 
-                                uninstallQ, installed, errClosed, subTopic, 
-                                subState, unReq, resp, emitted, filters, timer, 
-                                coSpawned, ticks, fires, latestBlock, 
-                                lastIndexed, hdr, newBlockSig, quitBuf, quit, 
-                                f, ft, ech, addOk, inUse, cch, pch, pt, ptOk, 
-                                round, cs, ct, seen, ok, polls, me, h, lb, 
-                                sent >>
+                /\ IF found'[self] /\ timer[cs[self]] = "drained"
+                      THEN /\ pc' = [pc EXCEPT ![self] = "g_drain"]
+                           /\ timer' = timer
+                      ELSE /\ IF found'[self]
+                                 THEN /\ timer' = [timer EXCEPT ![cs[self]] = "running"]
+                                 ELSE /\ TRUE
+                                      /\ timer' = timer
+                           /\ pc' = [pc EXCEPT ![self] = "g_unlock"]
+                /\ UNCHANGED << crashed, busTopics, busSubs, topW, devUsed, 
+                                subCh, idxR, idxW, index, topicChans, chans, 
+                                nextChan, installQ, uninstallQ, installed, 
+                                errClosed, subTopic, subState, unReq, resp, 
+                                emitted, filters, coSpawned, ticks, fires, 
+                                latestBlock, lastIndexed, hdr, newBlockSig, 
+                                quitBuf, quit, f, ft, ech, addOk, inUse, cch, 
+                                pch, ptOk, round, cs, ct, seen, ok, polls, me, 
+                                h, lb, sent >>
 
-g_timer(self) == /\ pc[self] = "g_timer"
-                 /\ timer[cs[self]] \in {"running", "fired"}
-                 /\ timer' = [timer EXCEPT ![cs[self]] = "running"]
+g_drain(self) == /\ pc[self] = "g_drain"
+                 /\ FALSE
                  /\ pc' = [pc EXCEPT ![self] = "g_unlock"]
-                 /\ UNCHANGED << crashed, busTopics, busSubs, subCh, idxR, 
-                                 idxW, index, topicChans, chans, nextChan, 
-                                 installQ, uninstallQ, installed, errClosed, 
-                                 subTopic, subState, unReq, resp, emitted, fmu, 
-                                 filters, coSpawned, ticks, fires, latestBlock, 
-                                 lastIndexed, hdr, newBlockSig, quitBuf, quit, 
-                                 f, ft, ech, addOk, inUse, cch, pch, pt, ptOk, 
-                                 round, cs, ct, seen, ok, polls, found, me, h, 
-                                 lb, sent >>
+                 /\ UNCHANGED << crashed, busTopics, busSubs, topW, devUsed, 
+                                 subCh, idxR, idxW, index, topicChans, chans, 
+                                 nextChan, installQ, uninstallQ, installed, 
+                                 errClosed, subTopic, subState, unReq, resp, 
+                                 emitted, fmu, filters, timer, coSpawned, 
+                                 ticks, fires, latestBlock, lastIndexed, hdr, 
+                                 newBlockSig, quitBuf, quit, f, ft, ech, addOk, 
+                                 inUse, cch, pch, ptOk, round, cs, ct, seen, 
+                                 ok, polls, found, me, h, lb, sent >>
 
 g_unlock(self) == /\ pc[self] = "g_unlock"
                   /\ fmu' = 0
                   /\ pc' = [pc EXCEPT ![self] = "c_use"]
-                  /\ UNCHANGED << crashed, busTopics, busSubs, subCh, idxR, 
-                                  idxW, index, topicChans, chans, nextChan, 
-                                  installQ, uninstallQ, installed, errClosed, 
-                                  subTopic, subState, unReq, resp, emitted, 
-                                  filters, timer, coSpawned, ticks, fires, 
-                                  latestBlock, lastIndexed, hdr, newBlockSig, 
-                                  quitBuf, quit, f, ft, ech, addOk, inUse, cch, 
-                                  pch, pt, ptOk, round, cs, ct, seen, ok, 
-                                  polls, found, me, h, lb, sent >>
+                  /\ UNCHANGED << crashed, busTopics, busSubs, topW, devUsed, 
+                                  subCh, idxR, idxW, index, topicChans, chans, 
+                                  nextChan, installQ, uninstallQ, installed, 
+                                  errClosed, subTopic, subState, unReq, resp, 
+                                  emitted, filters, timer, coSpawned, ticks, 
+                                  fires, latestBlock, lastIndexed, hdr, 
+                                  newBlockSig, quitBuf, quit, f, ft, ech, 
+                                  addOk, inUse, cch, pch, ptOk, round, cs, ct, 
+                                  seen, ok, polls, found, me, h, lb, sent >>
 
 u_lock(self) == /\ pc[self] = "u_lock"
                 /\ fmu = 0
@@ -1101,93 +1151,67 @@ u_lock(self) == /\ pc[self] = "u_lock"
                       THEN /\ subState' = [subState EXCEPT ![cs[self]] = "unsub"]
                       ELSE /\ TRUE
                            /\ UNCHANGED subState
-                /\ pc' = [pc EXCEPT ![self] = "u_unsub"]
-                /\ UNCHANGED << crashed, busTopics, busSubs, subCh, idxR, idxW, 
-                                index, topicChans, chans, nextChan, installQ, 
-                                uninstallQ, installed, errClosed, subTopic, 
-                                unReq, resp, emitted, fmu, timer, coSpawned, 
-                                ticks, fires, latestBlock, lastIndexed, hdr, 
-                                newBlockSig, quitBuf, quit, f, ft, ech, addOk, 
-                                inUse, cch, pch, pt, ptOk, round, cs, ct, seen, 
-                                ok, polls, me, h, lb, sent >>
-
-u_unsub(self) == /\ pc[self] = "u_unsub"
-                 /\ IF found[self]
-                       THEN /\ unReq' = [unReq EXCEPT ![cs[self]] = unReq[cs[self]] + 1]
-                       ELSE /\ TRUE
-                            /\ unReq' = unReq
-                 /\ pc' = [pc EXCEPT ![self] = "c_next"]
-                 /\ UNCHANGED << crashed, busTopics, busSubs, subCh, idxR, 
-                                 idxW, index, topicChans, chans, nextChan, 
-                                 installQ, uninstallQ, installed, errClosed, 
-                                 subTopic, subState, resp, emitted, fmu, 
-                                 filters, timer, coSpawned, ticks, fires, 
-                                 latestBlock, lastIndexed, hdr, newBlockSig, 
-                                 quitBuf, quit, f, ft, ech, addOk, inUse, cch, 
-                                 pch, pt, ptOk, round, cs, ct, seen, ok, polls, 
-                                 found, me, h, lb, sent >>
+                /\ IF found'[self]
+                      THEN /\ unReq' = [unReq EXCEPT ![cs[self]] = unReq[cs[self]] + 1]
+                      ELSE /\ TRUE
+                           /\ unReq' = unReq
+                /\ pc' = [pc EXCEPT ![self] = "c_next"]
+                /\ UNCHANGED << crashed, busTopics, busSubs, topW, devUsed, 
+                                subCh, idxR, idxW, index, topicChans, chans, 
+                                nextChan, installQ, uninstallQ, installed, 
+                                errClosed, subTopic, resp, emitted, fmu, timer, 
+                                coSpawned, ticks, fires, latestBlock, 
+                                lastIndexed, hdr, newBlockSig, quitBuf, quit, 
+                                f, ft, ech, addOk, inUse, cch, pch, ptOk, 
+                                round, cs, ct, seen, ok, polls, me, h, lb, 
+                                sent >>
 
 c_recv(self) == /\ pc[self] = "c_recv"
                 /\ \/ /\ subCh[cs[self]].buf > 0
                       /\ subCh' = [subCh EXCEPT ![cs[self]].buf = subCh[cs[self]].buf - 1]
                       /\ pc' = [pc EXCEPT ![self] = "c_recv"]
-                   \/ /\ subCh[cs[self]].closed /\ subCh[cs[self]].buf = 0
+                   \/ /\ subCh[cs[self]].closed
+                      /\ subCh' = [subCh EXCEPT ![cs[self]].buf = 0]
                       /\ pc' = [pc EXCEPT ![self] = "c_unsub"]
-                      /\ subCh' = subCh
                    \/ /\ TRUE
                       /\ pc' = [pc EXCEPT ![self] = "c_unsub"]
                       /\ subCh' = subCh
-                /\ UNCHANGED << crashed, busTopics, busSubs, idxR, idxW, index, 
-                                topicChans, chans, nextChan, installQ, 
-                                uninstallQ, installed, errClosed, subTopic, 
-                                subState, unReq, resp, emitted, fmu, filters, 
-                                timer, coSpawned, ticks, fires, latestBlock, 
-                                lastIndexed, hdr, newBlockSig, quitBuf, quit, 
-                                f, ft, ech, addOk, inUse, cch, pch, pt, ptOk, 
-                                round, cs, ct, seen, ok, polls, found, me, h, 
-                                lb, sent >>
+                /\ UNCHANGED << crashed, busTopics, busSubs, topW, devUsed, 
+                                idxR, idxW, index, topicChans, chans, nextChan, 
+                                installQ, uninstallQ, installed, errClosed, 
+                                subTopic, subState, unReq, resp, emitted, fmu, 
+                                filters, timer, coSpawned, ticks, fires, 
+                                latestBlock, lastIndexed, hdr, newBlockSig, 
+                                quitBuf, quit, f, ft, ech, addOk, inUse, cch, 
+                                pch, ptOk, round, cs, ct, seen, ok, polls, 
+                                found, me, h, lb, sent >>
 
 c_unsub(self) == /\ pc[self] = "c_unsub"
                  /\ subState' = [subState EXCEPT ![cs[self]] = "unsub"]
                  /\ unReq' = [unReq EXCEPT ![cs[self]] = unReq[cs[self]] + 1]
                  /\ pc' = [pc EXCEPT ![self] = "c_cancel"]
-                 /\ UNCHANGED << crashed, busTopics, busSubs, subCh, idxR, 
-                                 idxW, index, topicChans, chans, nextChan, 
-                                 installQ, uninstallQ, installed, errClosed, 
-                                 subTopic, resp, emitted, fmu, filters, timer, 
-                                 coSpawned, ticks, fires, latestBlock, 
-                                 lastIndexed, hdr, newBlockSig, quitBuf, quit, 
-                                 f, ft, ech, addOk, inUse, cch, pch, pt, ptOk, 
-                                 round, cs, ct, seen, ok, polls, found, me, h, 
-                                 lb, sent >>
+                 /\ UNCHANGED << crashed, busTopics, busSubs, topW, devUsed, 
+                                 subCh, idxR, idxW, index, topicChans, chans, 
+                                 nextChan, installQ, uninstallQ, installed, 
+                                 errClosed, subTopic, resp, emitted, fmu, 
+                                 filters, timer, coSpawned, ticks, fires, 
+                                 latestBlock, lastIndexed, hdr, newBlockSig, 
+                                 quitBuf, quit, f, ft, ech, addOk, inUse, cch, 
+                                 pch, ptOk, round, cs, ct, seen, ok, polls, 
+                                 found, me, h, lb, sent >>
 
 c_cancel(self) == /\ pc[self] = "c_cancel"
                   /\ busSubs' = [busSubs EXCEPT ![ct[self]] = busSubs[ct[self]] \ {cs[self]}]
                   /\ pc' = [pc EXCEPT ![self] = "c_next"]
-                  /\ UNCHANGED << crashed, busTopics, subCh, idxR, idxW, index, 
-                                  topicChans, chans, nextChan, installQ, 
-                                  uninstallQ, installed, errClosed, subTopic, 
-                                  subState, unReq, resp, emitted, fmu, filters, 
-                                  timer, coSpawned, ticks, fires, latestBlock, 
-                                  lastIndexed, hdr, newBlockSig, quitBuf, quit, 
-                                  f, ft, ech, addOk, inUse, cch, pch, pt, ptOk, 
-                                  round, cs, ct, seen, ok, polls, found, me, h, 
-                                  lb, sent >>
-
-c_fadd(self) == /\ pc[self] = "c_fadd"
-                /\ filters' = (filters \cup {cs[self]})
-                /\ timer' = [timer EXCEPT ![cs[self]] = "running"]
-                /\ coSpawned' = (coSpawned \cup {cs[self]})
-                /\ subState' = [subState EXCEPT ![cs[self]] = "live"]
-                /\ pc' = [pc EXCEPT ![self] = "c_funlock"]
-                /\ UNCHANGED << crashed, busTopics, busSubs, subCh, idxR, idxW, 
-                                index, topicChans, chans, nextChan, installQ, 
-                                uninstallQ, installed, errClosed, subTopic, 
-                                unReq, resp, emitted, fmu, ticks, fires, 
-                                latestBlock, lastIndexed, hdr, newBlockSig, 
-                                quitBuf, quit, f, ft, ech, addOk, inUse, cch, 
-                                pch, pt, ptOk, round, cs, ct, seen, ok, polls, 
-                                found, me, h, lb, sent >>
+                  /\ UNCHANGED << crashed, busTopics, topW, devUsed, subCh, 
+                                  idxR, idxW, index, topicChans, chans, 
+                                  nextChan, installQ, uninstallQ, installed, 
+                                  errClosed, subTopic, subState, unReq, resp, 
+                                  emitted, fmu, filters, timer, coSpawned, 
+                                  ticks, fires, latestBlock, lastIndexed, hdr, 
+                                  newBlockSig, quitBuf, quit, f, ft, ech, 
+                                  addOk, inUse, cch, pch, ptOk, round, cs, ct, 
+                                  seen, ok, polls, found, me, h, lb, sent >>
 
 c_next(self) == /\ pc[self] = "c_next"
                 /\ round' = [round EXCEPT ![self] = round[self] + 1]
@@ -1198,144 +1222,135 @@ c_next(self) == /\ pc[self] = "c_next"
                 /\ found' = [found EXCEPT ![self] = FALSE]
                 /\ polls' = [polls EXCEPT ![self] = 0]
                 /\ pc' = [pc EXCEPT ![self] = "c_begin"]
-                /\ UNCHANGED << crashed, busTopics, busSubs, subCh, idxR, idxW, 
-                                index, topicChans, chans, nextChan, installQ, 
-                                uninstallQ, installed, errClosed, subTopic, 
-                                subState, unReq, resp, emitted, fmu, filters, 
-                                timer, coSpawned, ticks, fires, latestBlock, 
-                                lastIndexed, hdr, newBlockSig, quitBuf, quit, 
-                                f, ft, ech, addOk, inUse, cch, pch, pt, ptOk, 
-                                me, h, lb, sent >>
+                /\ UNCHANGED << crashed, busTopics, busSubs, topW, devUsed, 
+                                subCh, idxR, idxW, index, topicChans, chans, 
+                                nextChan, installQ, uninstallQ, installed, 
+                                errClosed, subTopic, subState, unReq, resp, 
+                                emitted, fmu, filters, timer, coSpawned, ticks, 
+                                fires, latestBlock, lastIndexed, hdr, 
+                                newBlockSig, quitBuf, quit, f, ft, ech, addOk, 
+                                inUse, cch, pch, ptOk, me, h, lb, sent >>
 
 c_flock(self) == /\ pc[self] = "c_flock"
                  /\ fmu = 0
                  /\ fmu' = self
                  /\ pc' = [pc EXCEPT ![self] = "c_topics"]
-                 /\ UNCHANGED << crashed, busTopics, busSubs, subCh, idxR, 
-                                 idxW, index, topicChans, chans, nextChan, 
-                                 installQ, uninstallQ, installed, errClosed, 
-                                 subTopic, subState, unReq, resp, emitted, 
-                                 filters, timer, coSpawned, ticks, fires, 
-                                 latestBlock, lastIndexed, hdr, newBlockSig, 
-                                 quitBuf, quit, f, ft, ech, addOk, inUse, cch, 
-                                 pch, pt, ptOk, round, cs, ct, seen, ok, polls, 
-                                 found, me, h, lb, sent >>
+                 /\ UNCHANGED << crashed, busTopics, busSubs, topW, devUsed, 
+                                 subCh, idxR, idxW, index, topicChans, chans, 
+                                 nextChan, installQ, uninstallQ, installed, 
+                                 errClosed, subTopic, subState, unReq, resp, 
+                                 emitted, filters, timer, coSpawned, ticks, 
+                                 fires, latestBlock, lastIndexed, hdr, 
+                                 newBlockSig, quitBuf, quit, f, ft, ech, addOk, 
+                                 inUse, cch, pch, ptOk, round, cs, ct, seen, 
+                                 ok, polls, found, me, h, lb, sent >>
 
 client(self) == c_begin(self) \/ c_topics(self) \/ c_inst(self)
-                   \/ c_bsub1(self) \/ c_bsub2(self) \/ c_funlock(self)
-                   \/ c_use(self) \/ g_lock(self) \/ g_timer(self)
-                   \/ g_unlock(self) \/ u_lock(self) \/ u_unsub(self)
+                   \/ c_bsub1(self) \/ c_bsub2(self) \/ c_fadd(self)
+                   \/ c_funlock(self) \/ c_use(self) \/ g_lock(self)
+                   \/ g_drain(self) \/ g_unlock(self) \/ u_lock(self)
                    \/ c_recv(self) \/ c_unsub(self) \/ c_cancel(self)
-                   \/ c_fadd(self) \/ c_next(self) \/ c_flock(self)
+                   \/ c_next(self) \/ c_flock(self)
 
 un_send(self) == /\ pc[self] = "un_send"
                  /\ unReq[self - 60] > 0
                  /\ unReq' = [unReq EXCEPT ![self - 60] = unReq[self - 60] - 1]
                  /\ uninstallQ' = (uninstallQ \cup {self - 60})
                  /\ pc' = [pc EXCEPT ![self] = "un_send"]
-                 /\ UNCHANGED << crashed, busTopics, busSubs, subCh, idxR, 
-                                 idxW, index, topicChans, chans, nextChan, 
-                                 installQ, installed, errClosed, subTopic, 
-                                 subState, resp, emitted, fmu, filters, timer, 
-                                 coSpawned, ticks, fires, latestBlock, 
-                                 lastIndexed, hdr, newBlockSig, quitBuf, quit, 
-                                 f, ft, ech, addOk, inUse, cch, pch, pt, ptOk, 
-                                 round, cs, ct, seen, ok, polls, found, me, h, 
-                                 lb, sent >>
+                 /\ UNCHANGED << crashed, busTopics, busSubs, topW, devUsed, 
+                                 subCh, idxR, idxW, index, topicChans, chans, 
+                                 nextChan, installQ, installed, errClosed, 
+                                 subTopic, subState, resp, emitted, fmu, 
+                                 filters, timer, coSpawned, ticks, fires, 
+                                 latestBlock, lastIndexed, hdr, newBlockSig, 
+                                 quitBuf, quit, f, ft, ech, addOk, inUse, cch, 
+                                 pch, ptOk, round, cs, ct, seen, ok, polls, 
+                                 found, me, h, lb, sent >>
 
 unsub(self) == un_send(self)
 
-co_start(self) == /\ pc[self] = "co_start"
-                  /\ me[self] \in coSpawned
-                  /\ pc' = [pc EXCEPT ![self] = "co_sel"]
-                  /\ UNCHANGED << crashed, busTopics, busSubs, subCh, idxR, 
-                                  idxW, index, topicChans, chans, nextChan, 
-                                  installQ, uninstallQ, installed, errClosed, 
-                                  subTopic, subState, unReq, resp, emitted, 
-                                  fmu, filters, timer, coSpawned, ticks, fires, 
-                                  latestBlock, lastIndexed, hdr, newBlockSig, 
-                                  quitBuf, quit, f, ft, ech, addOk, inUse, cch, 
-                                  pch, pt, ptOk, round, cs, ct, seen, ok, 
-                                  polls, found, me, h, lb, sent >>
-
 co_sel(self) == /\ pc[self] = "co_sel"
-                /\ \/ /\ subCh[me[self]].buf > 0
+                /\ \/ /\ me[self] \in coSpawned /\ subCh[me[self]].buf > 0
                       /\ subCh' = [subCh EXCEPT ![me[self]].buf = subCh[me[self]].buf - 1]
-                      /\ pc' = [pc EXCEPT ![self] = "co_ev"]
-                   \/ /\ subCh[me[self]].closed /\ subCh[me[self]].buf = 0
+                      /\ \/ /\ TRUE
+                            /\ pc' = [pc EXCEPT ![self] = "co_sel"]
+                         \/ /\ pc' = [pc EXCEPT ![self] = "co_ev"]
+                   \/ /\ me[self] \in coSpawned /\ subCh[me[self]].closed
+                      /\ subCh' = [subCh EXCEPT ![me[self]].buf = 0]
                       /\ pc' = [pc EXCEPT ![self] = "co_closed"]
-                      /\ subCh' = subCh
-                   \/ /\ errClosed[me[self]]
+                   \/ /\ me[self] \in coSpawned /\ errClosed[me[self]]
                       /\ pc' = [pc EXCEPT ![self] = "co_err"]
                       /\ subCh' = subCh
-                /\ UNCHANGED << crashed, busTopics, busSubs, idxR, idxW, index, 
-                                topicChans, chans, nextChan, installQ, 
-                                uninstallQ, installed, errClosed, subTopic, 
-                                subState, unReq, resp, emitted, fmu, filters, 
-                                timer, coSpawned, ticks, fires, latestBlock, 
-                                lastIndexed, hdr, newBlockSig, quitBuf, quit, 
-                                f, ft, ech, addOk, inUse, cch, pch, pt, ptOk, 
-                                round, cs, ct, seen, ok, polls, found, me, h, 
-                                lb, sent >>
+                /\ UNCHANGED << crashed, busTopics, busSubs, topW, devUsed, 
+                                idxR, idxW, index, topicChans, chans, nextChan, 
+                                installQ, uninstallQ, installed, errClosed, 
+                                subTopic, subState, unReq, resp, emitted, fmu, 
+                                filters, timer, coSpawned, ticks, fires, 
+                                latestBlock, lastIndexed, hdr, newBlockSig, 
+                                quitBuf, quit, f, ft, ech, addOk, inUse, cch, 
+                                pch, ptOk, round, cs, ct, seen, ok, polls, 
+                                found, me, h, lb, sent >>
 
 co_ev(self) == /\ pc[self] = "co_ev"
                /\ fmu = 0
                /\ pc' = [pc EXCEPT ![self] = "co_sel"]
-               /\ UNCHANGED << crashed, busTopics, busSubs, subCh, idxR, idxW, 
-                               index, topicChans, chans, nextChan, installQ, 
-                               uninstallQ, installed, errClosed, subTopic, 
-                               subState, unReq, resp, emitted, fmu, filters, 
-                               timer, coSpawned, ticks, fires, latestBlock, 
-                               lastIndexed, hdr, newBlockSig, quitBuf, quit, f, 
-                               ft, ech, addOk, inUse, cch, pch, pt, ptOk, 
-                               round, cs, ct, seen, ok, polls, found, me, h, 
-                               lb, sent >>
+               /\ UNCHANGED << crashed, busTopics, busSubs, topW, devUsed, 
+                               subCh, idxR, idxW, index, topicChans, chans, 
+                               nextChan, installQ, uninstallQ, installed, 
+                               errClosed, subTopic, subState, unReq, resp, 
+                               emitted, fmu, filters, timer, coSpawned, ticks, 
+                               fires, latestBlock, lastIndexed, hdr, 
+                               newBlockSig, quitBuf, quit, f, ft, ech, addOk, 
+                               inUse, cch, pch, ptOk, round, cs, ct, seen, ok, 
+                               polls, found, me, h, lb, sent >>
 
 co_closed(self) == /\ pc[self] = "co_closed"
                    /\ fmu = 0
                    /\ filters' = filters \ {me[self]}
                    /\ pc' = [pc EXCEPT ![self] = "co_exit"]
-                   /\ UNCHANGED << crashed, busTopics, busSubs, subCh, idxR, 
-                                   idxW, index, topicChans, chans, nextChan, 
-                                   installQ, uninstallQ, installed, errClosed, 
-                                   subTopic, subState, unReq, resp, emitted, 
-                                   fmu, timer, coSpawned, ticks, fires, 
-                                   latestBlock, lastIndexed, hdr, newBlockSig, 
-                                   quitBuf, quit, f, ft, ech, addOk, inUse, 
-                                   cch, pch, pt, ptOk, round, cs, ct, seen, ok, 
-                                   polls, found, me, h, lb, sent >>
+                   /\ UNCHANGED << crashed, busTopics, busSubs, topW, devUsed, 
+                                   subCh, idxR, idxW, index, topicChans, chans, 
+                                   nextChan, installQ, uninstallQ, installed, 
+                                   errClosed, subTopic, subState, unReq, resp, 
+                                   emitted, fmu, timer, coSpawned, ticks, 
+                                   fires, latestBlock, lastIndexed, hdr, 
+                                   newBlockSig, quitBuf, quit, f, ft, ech, 
+                                   addOk, inUse, cch, pch, ptOk, round, cs, ct, 
+                                   seen, ok, polls, found, me, h, lb, sent >>
 
 co_err(self) == /\ pc[self] = "co_err"
                 /\ fmu = 0
                 /\ filters' = filters \ {me[self]}
                 /\ IF ~("D19" \in Known /\ subTopic[me[self]] \in SpinTopics)
                       THEN /\ pc' = [pc EXCEPT ![self] = "co_exit"]
-                      ELSE /\ pc' = [pc EXCEPT ![self] = "co_sel"]
-                /\ UNCHANGED << crashed, busTopics, busSubs, subCh, idxR, idxW, 
-                                index, topicChans, chans, nextChan, installQ, 
-                                uninstallQ, installed, errClosed, subTopic, 
-                                subState, unReq, resp, emitted, fmu, timer, 
-                                coSpawned, ticks, fires, latestBlock, 
+                           /\ UNCHANGED devUsed
+                      ELSE /\ devUsed' = (devUsed \cup {"D19"})
+                           /\ pc' = [pc EXCEPT ![self] = "co_sel"]
+                /\ UNCHANGED << crashed, busTopics, busSubs, topW, subCh, idxR, 
+                                idxW, index, topicChans, chans, nextChan, 
+                                installQ, uninstallQ, installed, errClosed, 
+                                subTopic, subState, unReq, resp, emitted, fmu, 
+                                timer, coSpawned, ticks, fires, latestBlock, 
                                 lastIndexed, hdr, newBlockSig, quitBuf, quit, 
-                                f, ft, ech, addOk, inUse, cch, pch, pt, ptOk, 
+                                f, ft, ech, addOk, inUse, cch, pch, ptOk, 
                                 round, cs, ct, seen, ok, polls, found, me, h, 
                                 lb, sent >>
 
 co_exit(self) == /\ pc[self] = "co_exit"
                  /\ busSubs' = [busSubs EXCEPT ![subTopic[me[self]]] = busSubs[subTopic[me[self]]] \ {me[self]}]
                  /\ pc' = [pc EXCEPT ![self] = "Done"]
-                 /\ UNCHANGED << crashed, busTopics, subCh, idxR, idxW, index, 
-                                 topicChans, chans, nextChan, installQ, 
-                                 uninstallQ, installed, errClosed, subTopic, 
-                                 subState, unReq, resp, emitted, fmu, filters, 
-                                 timer, coSpawned, ticks, fires, latestBlock, 
-                                 lastIndexed, hdr, newBlockSig, quitBuf, quit, 
-                                 f, ft, ech, addOk, inUse, cch, pch, pt, ptOk, 
-                                 round, cs, ct, seen, ok, polls, found, me, h, 
-                                 lb, sent >>
+                 /\ UNCHANGED << crashed, busTopics, topW, devUsed, subCh, 
+                                 idxR, idxW, index, topicChans, chans, 
+                                 nextChan, installQ, uninstallQ, installed, 
+                                 errClosed, subTopic, subState, unReq, resp, 
+                                 emitted, fmu, filters, timer, coSpawned, 
+                                 ticks, fires, latestBlock, lastIndexed, hdr, 
+                                 newBlockSig, quitBuf, quit, f, ft, ech, addOk, 
+                                 inUse, cch, pch, ptOk, round, cs, ct, seen, 
+                                 ok, polls, found, me, h, lb, sent >>
 
-consumer(self) == co_start(self) \/ co_sel(self) \/ co_ev(self)
-                     \/ co_closed(self) \/ co_err(self) \/ co_exit(self)
+consumer(self) == co_sel(self) \/ co_ev(self) \/ co_closed(self)
+                     \/ co_err(self) \/ co_exit(self)
 
 tl_idle == /\ pc[TL] = "tl_idle"
            /\ \/ /\ Api /\ fires < MaxFires
@@ -1343,49 +1358,38 @@ tl_idle == /\ pc[TL] = "tl_idle"
                       timer' = [timer EXCEPT ![x] = "fired"]
                  /\ fires' = fires + 1
                  /\ pc' = [pc EXCEPT ![TL] = "tl_idle"]
-                 /\ UNCHANGED <<fmu, ticks>>
+                 /\ UNCHANGED <<subState, unReq, fmu, filters, ticks>>
               \/ /\ Api /\ ticks < MaxTicks /\ fmu = 0
                  /\ ticks' = ticks + 1
                  /\ fmu' = TL
-                 /\ pc' = [pc EXCEPT ![TL] = "tl_scan"]
-                 /\ UNCHANGED <<timer, fires>>
-           /\ UNCHANGED << crashed, busTopics, busSubs, subCh, idxR, idxW, 
-                           index, topicChans, chans, nextChan, installQ, 
-                           uninstallQ, installed, errClosed, subTopic, 
-                           subState, unReq, resp, emitted, filters, coSpawned, 
-                           latestBlock, lastIndexed, hdr, newBlockSig, quitBuf, 
-                           quit, f, ft, ech, addOk, inUse, cch, pch, pt, ptOk, 
-                           round, cs, ct, seen, ok, polls, found, me, h, lb, 
-                           sent >>
-
-tl_scan == /\ pc[TL] = "tl_scan"
-           /\ LET ex == {x \in filters : timer[x] = "fired"} IN
-                /\ timer' = [x \in Subs |-> IF x \in ex THEN "drained" ELSE timer[x]]
-                /\ unReq' = [x \in Subs |-> IF x \in ex THEN unReq[x] + 1 ELSE unReq[x]]
-                /\ subState' = [x \in Subs |-> IF x \in ex /\ subState[x] = "live" THEN "expired" ELSE subState[x]]
-                /\ filters' = filters \ ex
-           /\ pc' = [pc EXCEPT ![TL] = "tl_unlock"]
-           /\ UNCHANGED << crashed, busTopics, busSubs, subCh, idxR, idxW, 
-                           index, topicChans, chans, nextChan, installQ, 
-                           uninstallQ, installed, errClosed, subTopic, resp, 
-                           emitted, fmu, coSpawned, ticks, fires, latestBlock, 
+                 /\ LET ex == {x \in filters : timer[x] = "fired"} IN
+                      /\ timer' = [x \in Subs |-> IF x \in ex THEN "drained" ELSE timer[x]]
+                      /\ unReq' = [x \in Subs |-> IF x \in ex THEN unReq[x] + 1 ELSE unReq[x]]
+                      /\ subState' = [x \in Subs |-> IF x \in ex /\ subState[x] = "live" THEN "expired" ELSE subState[x]]
+                      /\ filters' = filters \ ex
+                 /\ pc' = [pc EXCEPT ![TL] = "tl_unlock"]
+                 /\ fires' = fires
+           /\ UNCHANGED << crashed, busTopics, busSubs, topW, devUsed, subCh, 
+                           idxR, idxW, index, topicChans, chans, nextChan, 
+                           installQ, uninstallQ, installed, errClosed, 
+                           subTopic, resp, emitted, coSpawned, latestBlock, 
                            lastIndexed, hdr, newBlockSig, quitBuf, quit, f, ft, 
-                           ech, addOk, inUse, cch, pch, pt, ptOk, round, cs, 
-                           ct, seen, ok, polls, found, me, h, lb, sent >>
+                           ech, addOk, inUse, cch, pch, ptOk, round, cs, ct, 
+                           seen, ok, polls, found, me, h, lb, sent >>
 
 tl_unlock == /\ pc[TL] = "tl_unlock"
              /\ fmu' = 0
              /\ pc' = [pc EXCEPT ![TL] = "tl_idle"]
-             /\ UNCHANGED << crashed, busTopics, busSubs, subCh, idxR, idxW, 
-                             index, topicChans, chans, nextChan, installQ, 
-                             uninstallQ, installed, errClosed, subTopic, 
-                             subState, unReq, resp, emitted, filters, timer, 
-                             coSpawned, ticks, fires, latestBlock, lastIndexed, 
-                             hdr, newBlockSig, quitBuf, quit, f, ft, ech, 
-                             addOk, inUse, cch, pch, pt, ptOk, round, cs, ct, 
-                             seen, ok, polls, found, me, h, lb, sent >>
+             /\ UNCHANGED << crashed, busTopics, busSubs, topW, devUsed, subCh, 
+                             idxR, idxW, index, topicChans, chans, nextChan, 
+                             installQ, uninstallQ, installed, errClosed, 
+                             subTopic, subState, unReq, resp, emitted, filters, 
+                             timer, coSpawned, ticks, fires, latestBlock, 
+                             lastIndexed, hdr, newBlockSig, quitBuf, quit, f, 
+                             ft, ech, addOk, inUse, cch, pch, ptOk, round, cs, 
+                             ct, seen, ok, polls, found, me, h, lb, sent >>
 
-timeoutLoop == tl_idle \/ tl_scan \/ tl_unlock
+timeoutLoop == tl_idle \/ tl_unlock
 
 src_send == /\ pc[SRC] = "src_send"
             /\ IF emitted < MaxEvents
@@ -1396,13 +1400,13 @@ src_send == /\ pc[SRC] = "src_send"
                        /\ pc' = [pc EXCEPT ![SRC] = "src_send"]
                   ELSE /\ pc' = [pc EXCEPT ![SRC] = "Done"]
                        /\ UNCHANGED << resp, emitted >>
-            /\ UNCHANGED << crashed, busTopics, busSubs, subCh, idxR, idxW, 
-                            index, topicChans, chans, nextChan, installQ, 
-                            uninstallQ, installed, errClosed, subTopic, 
-                            subState, unReq, fmu, filters, timer, coSpawned, 
-                            ticks, fires, latestBlock, lastIndexed, hdr, 
-                            newBlockSig, quitBuf, quit, f, ft, ech, addOk, 
-                            inUse, cch, pch, pt, ptOk, round, cs, ct, seen, ok, 
+            /\ UNCHANGED << crashed, busTopics, busSubs, topW, devUsed, subCh, 
+                            idxR, idxW, index, topicChans, chans, nextChan, 
+                            installQ, uninstallQ, installed, errClosed, 
+                            subTopic, subState, unReq, fmu, filters, timer, 
+                            coSpawned, ticks, fires, latestBlock, lastIndexed, 
+                            hdr, newBlockSig, quitBuf, quit, f, ft, ech, addOk, 
+                            inUse, cch, pch, ptOk, round, cs, ct, seen, ok, 
                             polls, found, me, h, lb, sent >>
 
 source == src_send
@@ -1410,14 +1414,14 @@ source == src_send
 ih_sel == /\ pc[IH] = "ih_sel"
           /\ WithIndexer
           /\ pc' = [pc EXCEPT ![IH] = "ih_loop"]
-          /\ UNCHANGED << crashed, busTopics, busSubs, subCh, idxR, idxW, 
-                          index, topicChans, chans, nextChan, installQ, 
-                          uninstallQ, installed, errClosed, subTopic, subState, 
-                          unReq, resp, emitted, fmu, filters, timer, coSpawned, 
-                          ticks, fires, latestBlock, lastIndexed, hdr, 
-                          newBlockSig, quitBuf, quit, f, ft, ech, addOk, inUse, 
-                          cch, pch, pt, ptOk, round, cs, ct, seen, ok, polls, 
-                          found, me, h, lb, sent >>
+          /\ UNCHANGED << crashed, busTopics, busSubs, topW, devUsed, subCh, 
+                          idxR, idxW, index, topicChans, chans, nextChan, 
+                          installQ, uninstallQ, installed, errClosed, subTopic, 
+                          subState, unReq, resp, emitted, fmu, filters, timer, 
+                          coSpawned, ticks, fires, latestBlock, lastIndexed, 
+                          hdr, newBlockSig, quitBuf, quit, f, ft, ech, addOk, 
+                          inUse, cch, pch, ptOk, round, cs, ct, seen, ok, 
+                          polls, found, me, h, lb, sent >>
 
 ih_loop == /\ pc[IH] = "ih_loop"
            /\ \/ /\ hdr # <<>>
@@ -1432,39 +1436,39 @@ ih_loop == /\ pc[IH] = "ih_loop"
                  /\ quitBuf' = 0
                  /\ pc' = [pc EXCEPT ![IH] = "ih_q"]
                  /\ UNCHANGED <<hdr, h>>
-           /\ UNCHANGED << crashed, busTopics, busSubs, subCh, idxR, idxW, 
-                           index, topicChans, chans, nextChan, installQ, 
-                           uninstallQ, installed, errClosed, subTopic, 
-                           subState, unReq, resp, emitted, fmu, filters, timer, 
-                           coSpawned, ticks, fires, latestBlock, lastIndexed, 
-                           newBlockSig, quit, f, ft, ech, addOk, inUse, cch, 
-                           pch, pt, ptOk, round, cs, ct, seen, ok, polls, 
-                           found, me, lb, sent >>
+           /\ UNCHANGED << crashed, busTopics, busSubs, topW, devUsed, subCh, 
+                           idxR, idxW, index, topicChans, chans, nextChan, 
+                           installQ, uninstallQ, installed, errClosed, 
+                           subTopic, subState, unReq, resp, emitted, fmu, 
+                           filters, timer, coSpawned, ticks, fires, 
+                           latestBlock, lastIndexed, newBlockSig, quit, f, ft, 
+                           ech, addOk, inUse, cch, pch, ptOk, round, cs, ct, 
+                           seen, ok, polls, found, me, lb, sent >>
 
 ih_cmp == /\ pc[IH] = "ih_cmp"
           /\ IF h > latestBlock
                 THEN /\ pc' = [pc EXCEPT ![IH] = "ih_set"]
                 ELSE /\ pc' = [pc EXCEPT ![IH] = "ih_loop"]
-          /\ UNCHANGED << crashed, busTopics, busSubs, subCh, idxR, idxW, 
-                          index, topicChans, chans, nextChan, installQ, 
-                          uninstallQ, installed, errClosed, subTopic, subState, 
-                          unReq, resp, emitted, fmu, filters, timer, coSpawned, 
-                          ticks, fires, latestBlock, lastIndexed, hdr, 
-                          newBlockSig, quitBuf, quit, f, ft, ech, addOk, inUse, 
-                          cch, pch, pt, ptOk, round, cs, ct, seen, ok, polls, 
-                          found, me, h, lb, sent >>
+          /\ UNCHANGED << crashed, busTopics, busSubs, topW, devUsed, subCh, 
+                          idxR, idxW, index, topicChans, chans, nextChan, 
+                          installQ, uninstallQ, installed, errClosed, subTopic, 
+                          subState, unReq, resp, emitted, fmu, filters, timer, 
+                          coSpawned, ticks, fires, latestBlock, lastIndexed, 
+                          hdr, newBlockSig, quitBuf, quit, f, ft, ech, addOk, 
+                          inUse, cch, pch, ptOk, round, cs, ct, seen, ok, 
+                          polls, found, me, h, lb, sent >>
 
 ih_set == /\ pc[IH] = "ih_set"
           /\ latestBlock' = h
           /\ pc' = [pc EXCEPT ![IH] = "ih_sig"]
-          /\ UNCHANGED << crashed, busTopics, busSubs, subCh, idxR, idxW, 
-                          index, topicChans, chans, nextChan, installQ, 
-                          uninstallQ, installed, errClosed, subTopic, subState, 
-                          unReq, resp, emitted, fmu, filters, timer, coSpawned, 
-                          ticks, fires, lastIndexed, hdr, newBlockSig, quitBuf, 
-                          quit, f, ft, ech, addOk, inUse, cch, pch, pt, ptOk, 
-                          round, cs, ct, seen, ok, polls, found, me, h, lb, 
-                          sent >>
+          /\ UNCHANGED << crashed, busTopics, busSubs, topW, devUsed, subCh, 
+                          idxR, idxW, index, topicChans, chans, nextChan, 
+                          installQ, uninstallQ, installed, errClosed, subTopic, 
+                          subState, unReq, resp, emitted, fmu, filters, timer, 
+                          coSpawned, ticks, fires, lastIndexed, hdr, 
+                          newBlockSig, quitBuf, quit, f, ft, ech, addOk, inUse, 
+                          cch, pch, ptOk, round, cs, ct, seen, ok, polls, 
+                          found, me, h, lb, sent >>
 
 ih_sig == /\ pc[IH] = "ih_sig"
           /\ IF newBlockSig = 0
@@ -1472,14 +1476,14 @@ ih_sig == /\ pc[IH] = "ih_sig"
                 ELSE /\ TRUE
                      /\ UNCHANGED newBlockSig
           /\ pc' = [pc EXCEPT ![IH] = "ih_loop"]
-          /\ UNCHANGED << crashed, busTopics, busSubs, subCh, idxR, idxW, 
-                          index, topicChans, chans, nextChan, installQ, 
-                          uninstallQ, installed, errClosed, subTopic, subState, 
-                          unReq, resp, emitted, fmu, filters, timer, coSpawned, 
-                          ticks, fires, latestBlock, lastIndexed, hdr, quitBuf, 
-                          quit, f, ft, ech, addOk, inUse, cch, pch, pt, ptOk, 
-                          round, cs, ct, seen, ok, polls, found, me, h, lb, 
-                          sent >>
+          /\ UNCHANGED << crashed, busTopics, busSubs, topW, devUsed, subCh, 
+                          idxR, idxW, index, topicChans, chans, nextChan, 
+                          installQ, uninstallQ, installed, errClosed, subTopic, 
+                          subState, unReq, resp, emitted, fmu, filters, timer, 
+                          coSpawned, ticks, fires, latestBlock, lastIndexed, 
+                          hdr, quitBuf, quit, f, ft, ech, addOk, inUse, cch, 
+                          pch, ptOk, round, cs, ct, seen, ok, polls, found, me, 
+                          h, lb, sent >>
 
 ih_q == /\ pc[IH] = "ih_q"
         /\ IF "D20" \in Known
@@ -1487,25 +1491,27 @@ ih_q == /\ pc[IH] = "ih_q"
                    /\ quitBuf' = 1
               ELSE /\ quitBuf' = 1
         /\ pc' = [pc EXCEPT ![IH] = "ih_done"]
-        /\ UNCHANGED << crashed, busTopics, busSubs, subCh, idxR, idxW, index, 
-                        topicChans, chans, nextChan, installQ, uninstallQ, 
-                        installed, errClosed, subTopic, subState, unReq, resp, 
-                        emitted, fmu, filters, timer, coSpawned, ticks, fires, 
-                        latestBlock, lastIndexed, hdr, newBlockSig, quit, f, 
-                        ft, ech, addOk, inUse, cch, pch, pt, ptOk, round, cs, 
-                        ct, seen, ok, polls, found, me, h, lb, sent >>
+        /\ UNCHANGED << crashed, busTopics, busSubs, topW, devUsed, subCh, 
+                        idxR, idxW, index, topicChans, chans, nextChan, 
+                        installQ, uninstallQ, installed, errClosed, subTopic, 
+                        subState, unReq, resp, emitted, fmu, filters, timer, 
+                        coSpawned, ticks, fires, latestBlock, lastIndexed, hdr, 
+                        newBlockSig, quit, f, ft, ech, addOk, inUse, cch, pch, 
+                        ptOk, round, cs, ct, seen, ok, polls, found, me, h, lb, 
+                        sent >>
 
 ih_done == /\ pc[IH] = "ih_done"
            /\ TRUE
            /\ pc' = [pc EXCEPT ![IH] = "Done"]
-           /\ UNCHANGED << crashed, busTopics, busSubs, subCh, idxR, idxW, 
-                           index, topicChans, chans, nextChan, installQ, 
-                           uninstallQ, installed, errClosed, subTopic, 
-                           subState, unReq, resp, emitted, fmu, filters, timer, 
-                           coSpawned, ticks, fires, latestBlock, lastIndexed, 
-                           hdr, newBlockSig, quitBuf, quit, f, ft, ech, addOk, 
-                           inUse, cch, pch, pt, ptOk, round, cs, ct, seen, ok, 
-                           polls, found, me, h, lb, sent >>
+           /\ UNCHANGED << crashed, busTopics, busSubs, topW, devUsed, subCh, 
+                           idxR, idxW, index, topicChans, chans, nextChan, 
+                           installQ, uninstallQ, installed, errClosed, 
+                           subTopic, subState, unReq, resp, emitted, fmu, 
+                           filters, timer, coSpawned, ticks, fires, 
+                           latestBlock, lastIndexed, hdr, newBlockSig, quitBuf, 
+                           quit, f, ft, ech, addOk, inUse, cch, pch, ptOk, 
+                           round, cs, ct, seen, ok, polls, found, me, h, lb, 
+                           sent >>
 
 idxHeader == ih_sel \/ ih_loop \/ ih_cmp \/ ih_set \/ ih_sig \/ ih_q
                 \/ ih_done
@@ -1513,14 +1519,15 @@ idxHeader == ih_sel \/ ih_loop \/ ih_cmp \/ ih_set \/ ih_sig \/ ih_q
 im_start == /\ pc[IM] = "im_start"
             /\ WithIndexer
             /\ pc' = [pc EXCEPT ![IM] = "im_top"]
-            /\ UNCHANGED << crashed, busTopics, busSubs, subCh, idxR, idxW, 
-                            index, topicChans, chans, nextChan, installQ, 
-                            uninstallQ, installed, errClosed, subTopic, 
-                            subState, unReq, resp, emitted, fmu, filters, 
-                            timer, coSpawned, ticks, fires, latestBlock, 
-                            lastIndexed, hdr, newBlockSig, quitBuf, quit, f, 
-                            ft, ech, addOk, inUse, cch, pch, pt, ptOk, round, 
-                            cs, ct, seen, ok, polls, found, me, h, lb, sent >>
+            /\ UNCHANGED << crashed, busTopics, busSubs, topW, devUsed, subCh, 
+                            idxR, idxW, index, topicChans, chans, nextChan, 
+                            installQ, uninstallQ, installed, errClosed, 
+                            subTopic, subState, unReq, resp, emitted, fmu, 
+                            filters, timer, coSpawned, ticks, fires, 
+                            latestBlock, lastIndexed, hdr, newBlockSig, 
+                            quitBuf, quit, f, ft, ech, addOk, inUse, cch, pch, 
+                            ptOk, round, cs, ct, seen, ok, polls, found, me, h, 
+                            lb, sent >>
 
 im_top == /\ pc[IM] = "im_top"
           /\ \/ /\ quit
@@ -1532,28 +1539,28 @@ im_top == /\ pc[IM] = "im_top"
              \/ /\ ~quit /\ quitBuf = 0
                 /\ pc' = [pc EXCEPT ![IM] = "im_chk"]
                 /\ UNCHANGED quitBuf
-          /\ UNCHANGED << crashed, busTopics, busSubs, subCh, idxR, idxW, 
-                          index, topicChans, chans, nextChan, installQ, 
-                          uninstallQ, installed, errClosed, subTopic, subState, 
-                          unReq, resp, emitted, fmu, filters, timer, coSpawned, 
-                          ticks, fires, latestBlock, lastIndexed, hdr, 
-                          newBlockSig, quit, f, ft, ech, addOk, inUse, cch, 
-                          pch, pt, ptOk, round, cs, ct, seen, ok, polls, found, 
-                          me, h, lb, sent >>
+          /\ UNCHANGED << crashed, busTopics, busSubs, topW, devUsed, subCh, 
+                          idxR, idxW, index, topicChans, chans, nextChan, 
+                          installQ, uninstallQ, installed, errClosed, subTopic, 
+                          subState, unReq, resp, emitted, fmu, filters, timer, 
+                          coSpawned, ticks, fires, latestBlock, lastIndexed, 
+                          hdr, newBlockSig, quit, f, ft, ech, addOk, inUse, 
+                          cch, pch, ptOk, round, cs, ct, seen, ok, polls, 
+                          found, me, h, lb, sent >>
 
 im_chk == /\ pc[IM] = "im_chk"
           /\ lb' = latestBlock
           /\ IF lastIndexed >= lb'
                 THEN /\ pc' = [pc EXCEPT ![IM] = "im_wait"]
                 ELSE /\ pc' = [pc EXCEPT ![IM] = "im_index"]
-          /\ UNCHANGED << crashed, busTopics, busSubs, subCh, idxR, idxW, 
-                          index, topicChans, chans, nextChan, installQ, 
-                          uninstallQ, installed, errClosed, subTopic, subState, 
-                          unReq, resp, emitted, fmu, filters, timer, coSpawned, 
-                          ticks, fires, latestBlock, lastIndexed, hdr, 
-                          newBlockSig, quitBuf, quit, f, ft, ech, addOk, inUse, 
-                          cch, pch, pt, ptOk, round, cs, ct, seen, ok, polls, 
-                          found, me, h, sent >>
+          /\ UNCHANGED << crashed, busTopics, busSubs, topW, devUsed, subCh, 
+                          idxR, idxW, index, topicChans, chans, nextChan, 
+                          installQ, uninstallQ, installed, errClosed, subTopic, 
+                          subState, unReq, resp, emitted, fmu, filters, timer, 
+                          coSpawned, ticks, fires, latestBlock, lastIndexed, 
+                          hdr, newBlockSig, quitBuf, quit, f, ft, ech, addOk, 
+                          inUse, cch, pch, ptOk, round, cs, ct, seen, ok, 
+                          polls, found, me, h, sent >>
 
 im_wait == /\ pc[IM] = "im_wait"
            /\ \/ /\ newBlockSig = 1
@@ -1565,14 +1572,14 @@ im_wait == /\ pc[IM] = "im_wait"
               \/ /\ quit
                  /\ pc' = [pc EXCEPT ![IM] = "im_done"]
                  /\ UNCHANGED newBlockSig
-           /\ UNCHANGED << crashed, busTopics, busSubs, subCh, idxR, idxW, 
-                           index, topicChans, chans, nextChan, installQ, 
-                           uninstallQ, installed, errClosed, subTopic, 
-                           subState, unReq, resp, emitted, fmu, filters, timer, 
-                           coSpawned, ticks, fires, latestBlock, lastIndexed, 
-                           hdr, quitBuf, quit, f, ft, ech, addOk, inUse, cch, 
-                           pch, pt, ptOk, round, cs, ct, seen, ok, polls, 
-                           found, me, h, lb, sent >>
+           /\ UNCHANGED << crashed, busTopics, busSubs, topW, devUsed, subCh, 
+                           idxR, idxW, index, topicChans, chans, nextChan, 
+                           installQ, uninstallQ, installed, errClosed, 
+                           subTopic, subState, unReq, resp, emitted, fmu, 
+                           filters, timer, coSpawned, ticks, fires, 
+                           latestBlock, lastIndexed, hdr, quitBuf, quit, f, ft, 
+                           ech, addOk, inUse, cch, pch, ptOk, round, cs, ct, 
+                           seen, ok, polls, found, me, h, lb, sent >>
 
 im_index == /\ pc[IM] = "im_index"
             /\ IF lastIndexed < latestBlock
@@ -1580,14 +1587,14 @@ im_index == /\ pc[IM] = "im_index"
                        /\ pc' = [pc EXCEPT ![IM] = "im_index"]
                   ELSE /\ pc' = [pc EXCEPT ![IM] = "im_top"]
                        /\ UNCHANGED lastIndexed
-            /\ UNCHANGED << crashed, busTopics, busSubs, subCh, idxR, idxW, 
-                            index, topicChans, chans, nextChan, installQ, 
-                            uninstallQ, installed, errClosed, subTopic, 
-                            subState, unReq, resp, emitted, fmu, filters, 
-                            timer, coSpawned, ticks, fires, latestBlock, hdr, 
-                            newBlockSig, quitBuf, quit, f, ft, ech, addOk, 
-                            inUse, cch, pch, pt, ptOk, round, cs, ct, seen, ok, 
-                            polls, found, me, h, lb, sent >>
+            /\ UNCHANGED << crashed, busTopics, busSubs, topW, devUsed, subCh, 
+                            idxR, idxW, index, topicChans, chans, nextChan, 
+                            installQ, uninstallQ, installed, errClosed, 
+                            subTopic, subState, unReq, resp, emitted, fmu, 
+                            filters, timer, coSpawned, ticks, fires, 
+                            latestBlock, hdr, newBlockSig, quitBuf, quit, f, 
+                            ft, ech, addOk, inUse, cch, pch, ptOk, round, cs, 
+                            ct, seen, ok, polls, found, me, h, lb, sent >>
 
 im_q == /\ pc[IM] = "im_q"
         /\ IF "D20" \in Known
@@ -1595,25 +1602,27 @@ im_q == /\ pc[IM] = "im_q"
                    /\ quitBuf' = 1
               ELSE /\ quitBuf' = 1
         /\ pc' = [pc EXCEPT ![IM] = "im_done"]
-        /\ UNCHANGED << crashed, busTopics, busSubs, subCh, idxR, idxW, index, 
-                        topicChans, chans, nextChan, installQ, uninstallQ, 
-                        installed, errClosed, subTopic, subState, unReq, resp, 
-                        emitted, fmu, filters, timer, coSpawned, ticks, fires, 
-                        latestBlock, lastIndexed, hdr, newBlockSig, quit, f, 
-                        ft, ech, addOk, inUse, cch, pch, pt, ptOk, round, cs, 
-                        ct, seen, ok, polls, found, me, h, lb, sent >>
+        /\ UNCHANGED << crashed, busTopics, busSubs, topW, devUsed, subCh, 
+                        idxR, idxW, index, topicChans, chans, nextChan, 
+                        installQ, uninstallQ, installed, errClosed, subTopic, 
+                        subState, unReq, resp, emitted, fmu, filters, timer, 
+                        coSpawned, ticks, fires, latestBlock, lastIndexed, hdr, 
+                        newBlockSig, quit, f, ft, ech, addOk, inUse, cch, pch, 
+                        ptOk, round, cs, ct, seen, ok, polls, found, me, h, lb, 
+                        sent >>
 
 im_done == /\ pc[IM] = "im_done"
            /\ TRUE
            /\ pc' = [pc EXCEPT ![IM] = "Done"]
-           /\ UNCHANGED << crashed, busTopics, busSubs, subCh, idxR, idxW, 
-                           index, topicChans, chans, nextChan, installQ, 
-                           uninstallQ, installed, errClosed, subTopic, 
-                           subState, unReq, resp, emitted, fmu, filters, timer, 
-                           coSpawned, ticks, fires, latestBlock, lastIndexed, 
-                           hdr, newBlockSig, quitBuf, quit, f, ft, ech, addOk, 
-                           inUse, cch, pch, pt, ptOk, round, cs, ct, seen, ok, 
-                           polls, found, me, h, lb, sent >>
+           /\ UNCHANGED << crashed, busTopics, busSubs, topW, devUsed, subCh, 
+                           idxR, idxW, index, topicChans, chans, nextChan, 
+                           installQ, uninstallQ, installed, errClosed, 
+                           subTopic, subState, unReq, resp, emitted, fmu, 
+                           filters, timer, coSpawned, ticks, fires, 
+                           latestBlock, lastIndexed, hdr, newBlockSig, quitBuf, 
+                           quit, f, ft, ech, addOk, inUse, cch, pch, ptOk, 
+                           round, cs, ct, seen, ok, polls, found, me, h, lb, 
+                           sent >>
 
 idxMain == im_start \/ im_top \/ im_chk \/ im_wait \/ im_index \/ im_q
               \/ im_done
@@ -1621,14 +1630,15 @@ idxMain == im_start \/ im_top \/ im_chk \/ im_wait \/ im_index \/ im_q
 iq_start == /\ pc[IQ] = "iq_start"
             /\ WithIndexer
             /\ pc' = [pc EXCEPT ![IQ] = "iq_loop"]
-            /\ UNCHANGED << crashed, busTopics, busSubs, subCh, idxR, idxW, 
-                            index, topicChans, chans, nextChan, installQ, 
-                            uninstallQ, installed, errClosed, subTopic, 
-                            subState, unReq, resp, emitted, fmu, filters, 
-                            timer, coSpawned, ticks, fires, latestBlock, 
-                            lastIndexed, hdr, newBlockSig, quitBuf, quit, f, 
-                            ft, ech, addOk, inUse, cch, pch, pt, ptOk, round, 
-                            cs, ct, seen, ok, polls, found, me, h, lb, sent >>
+            /\ UNCHANGED << crashed, busTopics, busSubs, topW, devUsed, subCh, 
+                            idxR, idxW, index, topicChans, chans, nextChan, 
+                            installQ, uninstallQ, installed, errClosed, 
+                            subTopic, subState, unReq, resp, emitted, fmu, 
+                            filters, timer, coSpawned, ticks, fires, 
+                            latestBlock, lastIndexed, hdr, newBlockSig, 
+                            quitBuf, quit, f, ft, ech, addOk, inUse, cch, pch, 
+                            ptOk, round, cs, ct, seen, ok, polls, found, me, h, 
+                            lb, sent >>
 
 iq_loop == /\ pc[IQ] = "iq_loop"
            /\ IF ~quit
@@ -1641,14 +1651,14 @@ iq_loop == /\ pc[IQ] = "iq_loop"
                       /\ pc' = [pc EXCEPT ![IQ] = "iq_loop"]
                  ELSE /\ pc' = [pc EXCEPT ![IQ] = "Done"]
                       /\ UNCHANGED << hdr, quit, sent >>
-           /\ UNCHANGED << crashed, busTopics, busSubs, subCh, idxR, idxW, 
-                           index, topicChans, chans, nextChan, installQ, 
-                           uninstallQ, installed, errClosed, subTopic, 
-                           subState, unReq, resp, emitted, fmu, filters, timer, 
-                           coSpawned, ticks, fires, latestBlock, lastIndexed, 
-                           newBlockSig, quitBuf, f, ft, ech, addOk, inUse, cch, 
-                           pch, pt, ptOk, round, cs, ct, seen, ok, polls, 
-                           found, me, h, lb >>
+           /\ UNCHANGED << crashed, busTopics, busSubs, topW, devUsed, subCh, 
+                           idxR, idxW, index, topicChans, chans, nextChan, 
+                           installQ, uninstallQ, installed, errClosed, 
+                           subTopic, subState, unReq, resp, emitted, fmu, 
+                           filters, timer, coSpawned, ticks, fires, 
+                           latestBlock, lastIndexed, newBlockSig, quitBuf, f, 
+                           ft, ech, addOk, inUse, cch, pch, ptOk, round, cs, 
+                           ct, seen, ok, polls, found, me, h, lb >>
 
 idxEnv == iq_start \/ iq_loop
 
@@ -1675,9 +1685,9 @@ Parked(p) ==
   \/ p = EL  /\ pc[p] = "el_wait"
   \/ p = CE  /\ pc[p] = "ce_lookup"
   \/ p = TL  /\ pc[p] = "tl_idle"
-  \/ p \in PTs /\ pc[p] \in {"pt_recv", "pt_loop"}     \* never started, or serving a topic
+  \/ p \in PTs /\ pc[p] \in {"pt_loop", "pt_done"}     \* never started, or serving a topic
   \/ p \in UNs /\ pc[p] = "un_send"
-  \/ p \in COs /\ (pc[p] = "co_start" \/ (pc[p] = "co_sel" /\ subState[p - 40] \in {"live", "new"}))
+  \/ p \in COs /\ pc[p] = "co_sel" /\ (p - 40 \notin coSpawned \/ subState[p - 40] = "live")
   \/ p = IH /\ pc[p] = "ih_sel"
   \/ p = IM /\ pc[p] = "im_start"
   \/ p = IQ /\ pc[p] = "iq_start"
@@ -1697,7 +1707,7 @@ MCFairSpec == MCSpec /\ Fairness
 (* every publishTopic goroutine that is waiting on a source serves the registered topic channel:
    otherwise it (and its channel) can never be closed any more -- a leaked goroutine *)
 NoLeakedPublisher ==
-  (pc[EL] = "el_wait") => \A c \in Chans : (pc[PT(c)] = "pt_loop" /\ ~chans[c].closed) => topicChans[chans[c].topic] = c
+  (pc[EL] = "el_wait") => \A c \in Chans : (pc[PT(c)] = "pt_loop" /\ chans[c].topic # 0 /\ ~chans[c].closed) => topicChans[chans[c].topic] = c
 
 (* what the event system believes and what the bus holds agree whenever the event loop is idle *)
 TopicAgreement ==
@@ -1707,7 +1717,7 @@ TopicAgreement ==
 EventuallyUninstalled ==
   \A s \in Subs : (subState[s] \in {"unsub", "expired"} /\ unReq[s] + (IF s \in uninstallQ THEN 1 ELSE 0) > 0) ~> errClosed[s]
 UninstalledLeavesIndex ==
-  \A s \in Subs : (subState[s] = "unsub") ~> [](s \notin index[subTopic[s]] \/ subState[s] # "unsub")
+  \A s \in Subs : (subState[s] = "unsub") ~> [](subState[s] # "unsub" \/ subTopic[s] = 0 \/ s \notin index[subTopic[s]])
 ConsumersTerminate ==
   \A s \in Subs : errClosed[s] /\ s \in coSpawned ~> pc[CO(s)] = "Done"
 IndexerStops == quit ~> (pc[IH] = "Done" /\ pc[IM] = "Done")
